@@ -12,176 +12,752 @@ Definition show_fres (r : fres) : string :=
   end.
 Definition check (rs : list rune) : string := digest (show_fres (format_res rs)).
 Definition full (rs : list rune) : string := show_fres (format_res rs).
-Eval vm_compute in ("<<<M1695>>>" ++ check (runes_of_ascii "// top
-options {
-    // c1a
-    // c1b
-    StringPrefixLenType = u8;// c5
+Eval vm_compute in ("<<<M3583>>>" ++ check (runes_of_ascii "options {
+    LittleEndian = true;
     ArrayPrefixLenType = u8;
-    // c9
-    FixedStringPadFromLeft = true;
-    FixedStringPadChar = ' ';// c17
-}// c18
-
+    FixedStringPadChar = '0';
+    JavaPackage = ""com.example.msg"";
+    GoPackage = ""msg"";
+    GoModule = ""example.com/msg"";
+}
+MetaData Meta {
+    u32 SeqNum `sequence number
+more`,
+    char[8] Symbol `symbol
+more`,
+    zchar[5] ZSym `z symbol
+more`,
+    string Note,
+    Symbol AltSymbol `alias of symbol`,
+    f64 Price,
+}
+packet Inner {
+    u8 a,
+    i16 b,
+    string c,
+}
+packet Inner2 {
+    u8 a2,
+    char[3] c2,
+}
+packet Logon {
+    u8 x,
+    string user,
+    repeat u16 codes,
+}
 packet Logout {
-    // c21
-    repeat string Px,// c25
-    repeat string seqNo,// c29a
-    // c29b
-    InMsgkind64 {
-        // c31
-        uint16 OrderId,// c34
-        char[] count,
-        repeat i32 venue,
-        // c41
+    u16 reason,
+}
+packet Empty {
+}
+root packet Msg {
+    u8 su8,
+    uint8 luint8,
+    u16 su16,
+    uint16 luint16,
+    u32 su32,
+    uint32 luint32,
+    u64 su64,
+    uint64 luint64,
+    i8 si8,
+    int8 lint8,
+    i16 si16,
+    int16 lint16,
+    i32 si32,
+    int32 lint32,
+    i64 si64,
+    int64 lint64,
+    f32 sf32,
+    float32 lfloat32,
+    f64 sf64,
+    float64 lfloat64,
+    char[6] fsplain,
+    @leftPad('0') char[4] fs0,
+    @rightPad('0') char[5] fs1,
+    @leftPad(' ') char[6] fs2,
+    @rightPad(' ') char[7] fs3,
+    @leftPad('\x00') char[8] fs4,
+    @rightPad('\x00') char[9] fs5,
+    @leftPad() char[10] fs6,
+    @rightPad() char[11] fs7,
+    zchar[7] fz,
+    @leftPad('0') zchar[3] fzl0,
+    string s1 `doc`,
+    char[] s2,
+    Inner,
+    Sub {
+        u8 q,
+        string w,
+        Deep {
+            u16 z,
+            repeat i32 zs,
+        },
     },
-}
-
-packet Heartbeat {
-    // c47a
-    // c47b
-    float32 tag7,
-    repeat InPrice50 {
-        repeat char[5] lastPx,
-        // c59
-        InRef42 {
-            // c61
-            u8 pad0,// c64
-        },// c66
-        uint32 Acct,
-        repeat Logout,// c72a
-        // c72b
-        repeat char[5] Qty,
-        // c78
+    repeat u8 ru8,
+    repeat u16 ru16,
+    repeat u32 ru32,
+    repeat u64 ru64,
+    repeat i8 ri8,
+    repeat i16 ri16,
+    repeat i32 ri32,
+    repeat i64 ri64,
+    repeat f32 rf32,
+    repeat f64 rf64,
+    repeat string rstr,
+    repeat char[] rstr2,
+    repeat char[3] rfs,
+    repeat zchar[3] rfz,
+    repeat Inner2,
+    repeat Grp {
+        u8 k,
+        char[2] v,
     },
-    repeat InSeqno30 {
-        // c83
-        repeat Logout,// c86
-    },// c88a
-    // c88b
-    @leftPad('0')
-    // c92a
-    // c92b
-    char[12] Acct,// c97a
-    // c97b
-    char[] Side2,
-    // c100
-    repeat string msgKind,
+    SeqNum,
+    SeqNum seq2,
+    repeat SeqNum seqs,
+    Symbol,
+    AltSymbol alt,
+    ZSym,
+    Note,
+    repeat Symbol syms,
+    Price px,
+    u16 MsgType,
+    u32 BodyLen @lengthOf(Body),
+    match MsgType as Body {
+        1 : Logon,
+        [2, 3] : Logout,
+        7 : Logon,
+        9 : Empty,
+    },
+    u32 Checksum @calculatedFrom(""CRC32""),
 }
-
-// c105
-packet Ack {
-    // c108
-    Heartbeat,
-    // c110
-    char[8] seqNo,
-    // c115
-    float64 clOrdID,
-}// c119
-
-packet Trade {
-    // c122
-    char[] OrderId,// c125
-    f64 Side2,// c128a
-    // c128b
-    zchar[8] f1,
-    // c133
-    string Qty,
-    // c136
-    float64 seqNo,// c139a
-    // c139b
-    repeat Logout,
-    // c142
-}
-
-packet Order {
-    f32 OrderId,// c149
-    repeat u8 x,// c153
-    Ack,
-    // c155
-    zchar[7] Note,// c160
-}
-
-root packet Logon {
-    @rightPad('\x00')
-    // c169
-    char[9] f1,// c174
-}
-// c175")).
-Eval vm_compute in ("<<<M255>>>" ++ check (runes_of_ascii "/// triple
-MetaData Logon
-    {i16 body
-, } /// triple
-root packet
-Z9_ {	_x
-// packet A { u8 x, }
-// " ++ [128512]%N ++ runes_of_ascii " emoji
-{
-Foo {
-    matchKey { repeat
-    leftPad body ,
-    u128 MetaDataX ,
-    match uint8x as BodyLength{ ""abc"": int , [42
-    ,
-    10
-    ]: Z9_ , 1 :// a // b
-i64_ 0123456789 :
-u ,  ""a\""b""
-: chars , }
-    ,
-repeat //	t
-int32
-//x
-//	t
-packetx
-    , } ,  match zchar as u128
-    // @lengthOf(
-    { 007 //x
-: msg_type	""a\\"" : asx, """":T
-, 007 : charz, ""abc"":
-    /// triple
-    matchKey , ""x y"":  string_ ,
-}
-, repeat  zchar[
-0123456789 ]// trailing space 
-msg_type `doc` ,}, match Z9_ as MetaDataX
-{	[ 0 , ""1""
-    ]:
-    // packet A { u8 x, }
-    uint8x [ 65535 ,
-//
-//	t
-""""] :
-    x_y_z
-,""x y"": falsey ,
-65535
-:
-packetx, ""// no comment"": falsey [ 4294967296 , ""a\""b"" ,
-    ""\n"" , ""a\""b""	,
-    255 ]: charz	, } // @lengthOf(
-,
-}
-,
-    chars
-    int `u8 x,`
-    , @tag(65535)
-char[] Header `{ , }` , @tag(
-    255
-) match	repeatCount as
-    A { [4294967296 ,""\" ++ [233]%N ++ runes_of_ascii """ , ""packet"" , // packet A { u8 x, }
-42 ,
-007 , """ ++ [128512]%N ++ runes_of_ascii """, ""a\""b"" ]// c
-:
-    lengthOf , ""// no comment""
-:
-a1 ,""\n"" : MetaDataX//x
-3 // a // b
-:
-// @lengthOf(
-// packet A { u8 x, }
-body	, } , }
 ")).
-Eval vm_compute in ("<<<M1124>>>" ++ check (runes_of_ascii "// top
+Eval vm_compute in ("<<<M838>>>" ++ check (runes_of_ascii "
+packet roots { f64// a // b
+len `crlf
+line`	,@calculatedFrom(
+""x y"" // trailing space 
+) //x
+u128 { match
+roots as As { [""" ++ [233]%N ++ runes_of_ascii "t" ++ [233]%N ++ runes_of_ascii """ , 65535 ,007 ] :
+    msg_type
+4294967296:
+Packet 42: As , ""// no comment"" : BodyLength
+    65535 :int}
+    ,} , @lengthOf(
+int  )
+char[ 0 ]
+    Z9_ ,	repeat charz { zchar[0 ]	options1
+    `line1
+line2` //
+, } , repeat char[] msg_type `
+`	, @calculatedFrom( """" // c
+)@rightPad (	) _x
+len
+``
+,
+}MetaData
+Pad	{uint64 _x , } packet Foo {  @calculatedFrom(""a\""b""// 50% %s
+) u16	asx
+    `100% of %d`// `tick` ""quote"" 'q'
+, @rightPad	('0' )
+zchar[ 007] MetaDataX @lengthOf(
+int )`line1
+line2` ,A	@calculatedFrom( // `tick` ""quote"" 'q'
+""" ++ [28040; 24687]%N ++ runes_of_ascii """)
+    `// not a comment` ,  @rightPad ( )match	i8i8 as string_{ 255: i8i8, """ ++ [233]%N ++ runes_of_ascii "t" ++ [233]%N ++ runes_of_ascii """ :
+As ,
+42 :
+T
+    } , @calculatedFrom(
+    ""abc"")
+    @leftPad (
+' ' ) @leftPad () // " ++ [27880; 37322]%N ++ runes_of_ascii "
+float32 lengthOf , }root
+packet tag// 50% %s
+{ // a // b
+char[
+007	] MetaDataX @calculatedFrom(""packet"")
+,@leftPad ( ) repeat u16	i64_
+,
+@rightPad (
+    '0' ) repeat uint32 matchKey`crlf
+line` , o { matchKey { repeat
+    zchar[
+    0123456789 ] BodyLength
+, metadata , u@lengthOf( rootA //x
+)
+    `two words` , uint8 u128@lengthOf(
+repeatCount )
+`tab	here` , }
+, match options1 as asx
+{ [ ""\n"" ,	""\n"" ,
+""abc"" , ""`tick`""
+    ,
+""x y""	, 1 //	t
+, ""packet"" ]
+:
+    // c
+    pack
+255
+// packet A { u8 x, }
+/// triple
+:
+    u128 , [ ""\" ++ [233]%N ++ runes_of_ascii """  ,  ""packet"" ,255 , ""abc"" , ""a\\""
+    // `tick` ""quote"" 'q'
+    ]	: Z9_
+}, falsey/// triple
+{
+match rootA	as u8x {[ ""a\\"" ] :
+// `tick` ""quote"" 'q'
+/// triple
+T ,
+["""" //
+, //	t
+""" ++ [128512]%N ++ runes_of_ascii """] :Pad, // " ++ [27880; 37322]%N ++ runes_of_ascii "
+3:int 1
+: // packet A { u8 x, }
+leftPad , 10 : int }  ,
+    }
+    , } , repeat o matchKey ,
+    } /// triple")).
+Eval vm_compute in ("<<<M3727>>>" ++ check (runes_of_ascii "packet a1
+    {
+
+    repeat
+char[
+    007 
+]
+
+stringy, } 
+packet
+Foo{stringy
+
+    ,
+match	_x	as
+    o{
+    10 	 // " ++ [128512]%N ++ runes_of_ascii " emoji
+  : 
+a1
+,	}
+	,@leftPad
+(
+
+)
+// 50% %s
+  Pad
+@calculatedFrom(
+
+    ""// no comment"" //	t
+
+	) ,  // 50% %s
+  repeat
+	a1 a1 `two words`
+
+,
+
+    i32
+
+    falsey
+`two words`
+
+,
+@calculatedFrom(	// trailing space 
+  ""CRC32""
+)
+
+x@calculatedFrom(
+	""\" ++ [233]%N ++ runes_of_ascii """ )
+`u8 x,`
+,
+    repeat
+uint8x  {
+
+    u
+{
+
+char[]
+	u128	// " ++ [27880; 37322]%N ++ runes_of_ascii "
+  @lengthOf(
+
+leftPad )
+`{ , }` ,	roots , repeat
+
+    u16	metadata
+,  }	, }, 
+zchar[  007
+
+] BodyLength @calculatedFrom(
+        // @lengthOf(
+		// c
+""a\\"" )  , // " ++ [27880; 37322]%N ++ runes_of_ascii "
+  char[] o 
+@lengthOf(f32a 
+)	,
+
+} root packet
+
+    charz
+    {@tag(
+42
+)
+	rootA asx
+	`
+`
+    ,a1 
+{ u32
+
+    stringy 
+,
+	float @calculatedFrom(  """ ++ [233]%N ++ runes_of_ascii "t" ++ [233]%N ++ runes_of_ascii """
+)
+`line1
+line2`
+    ,
+    repeat repeatCount a1 ,  repeat msg_type
+
+    `{ , }` 
+, }	,
+
+    u 
+@calculatedFrom(""CRC32"")
+
+    `line1
+line2`,
+    @lengthOf(
+f32a
+	)	match
+// @lengthOf(
+
+	//
+    zchar as
+
+    msg_type
+
+    { [
+    ""{,}""
+	]: chars ""packet""
+	:// " ++ [128512]%N ++ runes_of_ascii " emoji
+    As , [1
+,
+    ""CRC32""	, ""a\""b"" , 	 // trailing space 
+    0 
+]
+	:tag , },
+
+    repeat float32
+    tag `" ++ [233]%N ++ runes_of_ascii "` 	 //	t
+	, @tag(	10
+
+    )	string  string_  @calculatedFrom(""x y""
+
+)
+	`line1
+line2`
+    , @tag(
+
+    4294967296 
+)
+repeat
+
+char
+o , 
+        // c
+
+repeat
+    zchar[
+
+42]
+
+    msg_type `crlf
+line`
+	,
+	char[ 42  ] /// triple
+BodyLength 
+@calculatedFrom(
+
+    ""a	b""
+)
+
+    ,
+	}
+
+")).
+Eval vm_compute in ("<<<M132>>>" ++ check (runes_of_ascii "root packet
+rootA {len
+chars `line1
+line2` , @tag(
+//	t
+// trailing space 
+3 ) @calculatedFrom(
+""1"") u128 {
+string matchKey	, } , Packet { zchar[7 ] falsey  ,
+}	,
+repeat
+    uint32 uint8x ,	repeat
+// 50% %s
+//x
+msg_type{zchar[ 0123456789]  msg_type @lengthOf( roots ) `a\`	, char[ 0 ]	As // packet A { u8 x, }
+, } , f64
+body
+    , @leftPad(' '	) @lengthOf(
+    o )	match x as
+As //x
+{
+10 :
+packetx """ ++ [128512]%N ++ runes_of_ascii """ :
+    matchKey ,0 : T
+    } // trailing space 
+,@lengthOf(calculatedFrom) matchKey { repeat// 50% %s
+char[
+1
+    ] matchKey//
+`two words` ,	} , }
+    root packet // a // b
+falsey
+{
+    //
+    char[007 ]leftPad `100% of %d` ,
+repeat//	t
+i32	tag`` ,
+    @calculatedFrom(""a	b""
+    ) @lengthOf( chars
+)	repeat rootA `` ,
+    @lengthOf( // c
+crc //
+) repeat Z9_ { repeat//x
+int16
+    rootA ,packetx @lengthOf(
+    string_)`line1
+line2`, repeat tag {
+    char chars,u8
+    metadata
+, // c
+float32 float
+,
+    match matchKey
+// " ++ [27880; 37322]%N ++ runes_of_ascii "
+//x
+as// trailing space 
+options1{ 007
+: chars , } ,} , char[] float
+    ,}, zchar[	0 ]u @lengthOf( stringy )
+    `
+` ,}packet T {
+lengthOf @lengthOf( chars )
+    `tab	here`,x_y_z
+{	stringy @calculatedFrom(//x
+""CRC32"" ) ,
+} ,
+} packet//	t
+zchar// " ++ [27880; 37322]%N ++ runes_of_ascii "
+{ @lengthOf(
+    As) char[]
+u ,@calculatedFrom(
+    // c
+    ""{,}"" )
+i64 falsey `it's` ,
+} packet float	{  }
+")).
+Eval vm_compute in ("<<<M4044>>>" ++ check (runes_of_ascii "packet u {
+    i8i8 @lengthOf(rootA) `// not a comment`,
+    @calculatedFrom(""" ++ [28040; 24687]%N ++ runes_of_ascii """)
+    @tag(0123456789)
+    @tag(7)
+    tag @calculatedFrom(""`tick`"") `u8 x,`,
+    match string_ as Pad {
+        ""\" ++ [233]%N ++ runes_of_ascii """ : u,
+        // 50% %s
+        // a // b
+        ""`tick`"" : leftPad,
+        255 : metadata,
+        //x
+        // `tick` ""quote"" 'q'
+        10 : Header,
+        10 : msg_type,
+        [""// no comment"", """", ""x y"", 0, ""// no comment""] : float,
+    },
+    @calculatedFrom("""")
+    @calculatedFrom(""{,}"")
+    Header {
+        uint64 pack `" ++ [28040; 24687; 31867; 22411]%N ++ runes_of_ascii "`,
+        leftPad {
+            zchar[007] trueish @lengthOf(BodyLength),
+            repeat lengthOf `
+                        `,// trailing space 
+            match Foo as Pad {
+                ""\n"" : lengthOf,
+                [""abc"", ""1""] : metadata,
+                // packet A { u8 x, }
+                65535 : zchar,
+                [""abc"", 42] : string_,
+                // c
+                ""1"" : falsey,
+            },
+            char[65535] o,
+        },
+    },
+}
+
+options {
+    // a // b
+    lengthOf = true;
+    rootA = true
+    repeatCount = '\x00'
+    A = false
+}
+
+options {
+    u = ""packet""// " ++ [27880; 37322]%N ++ runes_of_ascii "
+}
+
+options {
+    repeatCount = ""// no comment"";
+}")).
+Eval vm_compute in ("<<<M4282>>>" ++ check (runes_of_ascii "// top
+options {
+    // c1
+    StringPrefixLenType = u64;
+    // c5
+    ArrayPrefixLenType = u8;
+    FixedStringPadChar = '0';
+    // c13
+}
+
+// c14
+packet Logout {
+    // c17
+    char[] f1,
+    repeat u64 Qty,// c24
+    string Acct,
+    // c27
+    char[] Side2,
+    // c30
+    repeat i64 clOrdID,
+}
+
+packet Logon {
+    i64 tag7,
+    // c41
+    Logout,// c43
+    @rightPad('\x00')
+    char[4] Qty,// c52a
+    // c52b
+    repeat char[4] venue,// c58a
+    // c58b
+    string seqNo,
+}
+
+// c62
+packet Party {
+    // c65
+    Logon,// c67
+    float32 x,
+    uint32 price,
+    // c73
+    repeat string venue,
+    repeat char[3] seqNo,
+    // c83
+}// c84a
+
+// c84b
+packet Leg {
+    string Flags,
+    // c90
+    i32 Ref,
+    repeat Logout,// c96a
+    // c96b
+    repeat u16 x,
+    // c100
+}
+
+// c101
+packet Cancel {
+    // c104
+    repeat Logon,// c107a
+    // c107b
+    int8 Ref,
+    // c110
+    Logout,
+    // c112
+    char[] OrderId,
+    int16 Tail,
+}
+
+// c119
+root packet Heartbeat {
+    zchar[8] price,// c128
+    repeat Logout,// c131
+    Cancel,// c133
+    char[] Qty,
+    // c136
+    int32 x,
+    Leg,// c141
+}// c142a
+// c142b")).
+Eval vm_compute in ("<<<M4275>>>" ++ check (runes_of_ascii "packet MetaDataX
+    {
+
+    }
+
+packet  leftPad
+
+{
+repeat
+Logon	{ asx {
+	packetx
+`say ""hi""`
+
+    ,
+match
+	metadata
+    as
+chars
+// trailing space 
+	//	t
+
+{  [
+    7 ,255  ] :  falsey , 42 :  f32a 42
+:
+int  """ ++ [233]%N ++ runes_of_ascii "t" ++ [233]%N ++ runes_of_ascii """:
+
+    u128 // a // b
+    	,  }
+,}
+	,
+    repeat
+trueish
+, string 
+repeatCount
+
+@lengthOf( x ) `doc` ,} ,
+@rightPad
+(	)
+	zchar[ 3
+    ]	// trailing space 
+
+u128  `tab	here` ,@lengthOf(
+
+    i64_  )
+@calculatedFrom(
+    ""abc""
+
+) @lengthOf(  // 50% %s
+  Z9_) int32 u8x
+	`" ++ [28040; 24687; 31867; 22411]%N ++ runes_of_ascii "` 
+,	@rightPad
+
+( ) char[
+
+00 ] roots	// `tick` ""quote"" 'q'
+  	,	@rightPad (
+'\x00' 
+) @tag( 42
+	)// trailing space 
+@calculatedFrom(  ""a\""b"" )
+
+    repeat asx
+    `crlf
+line`
+	,
+x
+    @lengthOf(_x// `tick` ""quote"" 'q'
+
+)	,
+
+Logon	`
+` ,@rightPad('0'
+)
+	As
+    @lengthOf(crc )
+    `" ++ [233]%N ++ runes_of_ascii "`,	@tag(	10 )
+    int8
+
+x_y_z 
+@calculatedFrom( 
+""" ++ [128512]%N ++ runes_of_ascii """
+	)  , 
+asx@lengthOf(
+
+u8x
+) ,} MetaData
+
+    stringy
+
+    {
+
+int16
+	repeatCount  `u8 x,`
+, 
+}	packet repeatCount {
+@tag(7 
+)
+	repeat 
+//	t
+	// " ++ [27880; 37322]%N ++ runes_of_ascii "
+
+  zchar[
+65535
+	]
+    o 
+,x_y_z
+
+    charz ,
+
+    } ")).
+Eval vm_compute in ("<<<M1054>>>" ++ check (runes_of_ascii "
+packet i8i8 { @tag(1) repeat	Packet
+lengthOf ,string // trailing space 
+repeatCount @calculatedFrom( ""a\""b""  )	`" ++ [28040; 24687; 31867; 22411]%N ++ runes_of_ascii "` ,string_ `line1
+line2` ,
+    i8i8
+@calculatedFrom(
+    ""\n"" ),
+leftPad
+@lengthOf(
+packetx
+    )`" ++ [233]%N ++ runes_of_ascii "` ,
+    u8 x @calculatedFrom( //x
+""\" ++ [233]%N ++ runes_of_ascii """ ) `tab	here` ,
+@leftPad
+    ( '0'  ) @tag( 7 )
+    @rightPad (
+    )
+i8i8{ zchar , repeat u16 zchar	, asx
+// " ++ [27880; 37322]%N ++ runes_of_ascii "
+// " ++ [27880; 37322]%N ++ runes_of_ascii "
+@lengthOf(
+    chars )
+    , repeat zchar[0123456789] // packet A { u8 x, }
+rootA`doc` , //
+} //x
+,//
+}
+options
+{As= 255 packetx // @lengthOf(
+= """ ++ [128512]%N ++ runes_of_ascii """	; } packet crc{ @lengthOf(x) msg_type {u128 @lengthOf( x	), zchar[10 ]
+    i64_
+@lengthOf( options1 ) , char[	4294967296 // `tick` ""quote"" 'q'
+] i64_ @calculatedFrom( ""packet""
+) ,/// triple
+char[
+255]
+    MetaDataX	@lengthOf( i64_
+    // trailing space 
+    )//x
+, } , u16 x // @lengthOf(
+, repeat
+_x options1 ,@leftPad (
+    '\x00') i8i8 @lengthOf( u8x )``,
+}
+options{BodyLength	= char[ // `tick` ""quote"" 'q'
+255] stringy =
+    // " ++ [128512]%N ++ runes_of_ascii " emoji
+    007
+;
+}
+")).
+Eval vm_compute in ("<<<M3253>>>" ++ check (runes_of_ascii "// top
 root
     // c0
 packet // c1a
@@ -235,7 +811,7 @@ f32a // c32a
   // c32b
 x
     // c33
-`two words` // c34
+`" ++ [28040; 24687; 31867; 22411]%N ++ runes_of_ascii "` // c34
 , char // c36
 asx // c37a
   // c37b
@@ -245,955 +821,1814 @@ falsey // c39a
   // c39b
 ) // c40a
   // c40b
-`u8 x,` // c41a
+`` // c41a
   // c41b
 , // c42
-@lengthOf( i64_
+uint16 chars
     // c44
-)
+,
     // c45
-uint16 // c46
-chars // c47a
+@tag( // c46
+0 // c47a
   // c47b
-, // c48
-@tag( // c49a
+) // c48
+string // c49a
   // c49b
-0 // c50a
+_x // c50a
   // c50b
-) string
+@calculatedFrom( ""abc""
     // c52
-_x
+)
     // c53
-@calculatedFrom(
+`100% of %d`
     // c54
-""abc""
+,
     // c55
-) // c56a
+} // c56a
   // c56b
-`// not a comment`
-    // c57
-, // c58
-} // c59a
-  // c59b
 ")).
-Eval vm_compute in ("<<<M307>>>" ++ check (runes_of_ascii "options {
-    string_	= zchar[ 00
-    ]
-;}
-    packet falsey { @lengthOf( float	) string o // c
-,repeat msg_type , match MetaDataX as _x
-    { 3: Pad ,
-    }, leftPad@lengthOf(i8i8 //
-) , @tag(
-0123456789
-    )
-    i16 Packet `
-`
-,o pack `tab	here` ,zchar[ 10
-] int
-    , int16 Foo
-//	t
-// " ++ [128512]%N ++ runes_of_ascii " emoji
-@calculatedFrom(
-    ""CRC32"" )
-`u8 x,` , match f32a as	u8x
-{[ ""{,}""] : T, [ ""1""
-, 65535 ,3 , 0 ,/// triple
-""`tick`""
-    , 0123456789 ,""" ++ [128512]%N ++ runes_of_ascii """ , ""a\\"" ] :uint8x  , 255 : a1  , ""a	b""	: falsey """ ++ [28040; 24687]%N ++ runes_of_ascii """ : x
-    // " ++ [128512]%N ++ runes_of_ascii " emoji
-    , //	t
-[
-    ""packet""
+Eval vm_compute in ("<<<M4331>>>" ++ check (runes_of_ascii "packet
 // c
-//	t
-,3
-    ]
-:
-int , } ,
-repeat Foo /// triple
-{  zchar[1
-]body ``  , roots
-    rootA ,	char[ 0] rootA `doc`, }	,
-    }// `tick` ""quote"" 'q'
-options{
-    } options { Header = int16
-; roots = false ; repeatCount/// triple
-=
-    uint8; stringy
-=	""x y"" ;leftPad = ""it's"";
-    } MetaData u {	string_// trailing space 
-Header
-, zchar[ 3 ] i64_, }
-")).
-Eval vm_compute in ("<<<M1444>>>" ++ check (runes_of_ascii "
+Foo  // c
+    { match // 50% %s
+  float	as
 
-  options {
-LittleEndian
-    =true
-	; StringPrefixLenType = u64
-;
+    leftPad{ // " ++ [128512]%N ++ runes_of_ascii " emoji
+	[  00 , ""`tick`"" ]: leftPad  
+  // a // b
+    /// triple
 
-ArrayPrefixLenType	=
-u8
-	; 
-FixedStringPadChar	='0'; }
-	packet Reject{
-    i32
+	,0
 
-Ref  , repeat f64 OrderId	, repeat 
-InNote12
-	{  u8 pad0 ,	}, @leftPad
-	( 
-' '
-)
-
-char[
-
-6
-
-]	count
-,  }	packet  Logout{ zchar[6 
-]Tail
-,
-repeat string
-	venue 
-,
-	}packet
-Cancel{ 
-u64
-count , repeat	char[ 5
-
-    ] 
-lastPx ,
-	i64  Tail
-,
-
-    repeat
-InF140
-
-{	repeat 
-Logout
-    ,  repeat
-Reject
-	,
-} , } 
-root 
-packet 
-Trade
-	{
-    repeat InMsgkind39	{ repeat
-    Reject  ,
-char[
-
-    4
-]
-	Px 
-,  }  ,
-	string
-
-Acct 
-, uint16
-price
-
-    , f32 OrderId, u16 x ,
-
-u16
-    clOrdID
-@lengthOf(  Body
-    )	,
-    match x
-
-as Body	{178 
-: Logout, 
-13 : Cancel ,174
-    :	Reject
-,  }	,
-u16  Flags
-
-    @calculatedFrom(	""CRC32""), }
-")).
-Eval vm_compute in ("<<<M1893>>>" ++ check (runes_of_ascii "options {
-    StringPrefixLenType = u16;
-    ArrayPrefixLenType = u32;
-    FixedStringPadFromLeft = false;
-    FixedStringPadChar = '0';
-}
-
-packet Logout {
-    f64 f1,
-    i16 Note,
-    @rightPad('\x00')
-    char[11] Flags,
-}
-
-packet Cancel {
-    float64 msgKind,
-}
-
-packet Reject {
-    InQty43 {
-        float32 sym,
-        char[10] Tail,
-        uint8 venue,
-        uint16 f1,
-        char[9] Acct,
-    },
-}
-
-packet Trade {
-    char[] x,
-    zchar[6] Note,
-    repeat Reject,
-}
-
-root packet Order {
-    Cancel,
-    Logout,
-    u64 Acct,
-    u32 OrderId,
-    match OrderId as Body {
-        [127, 70] : Reject,
-        177 : Trade,
-        58 : Logout,
-        75 : Cancel,
-    },
-    u32 Tail @calculatedFrom(""CRC32""),
-}")).
-Eval vm_compute in ("<<<M1175>>>" ++ check (runes_of_ascii "// top
-MetaData
-    // c0
-x_y_z
-    // c1
-{
-    // c2
-char
-    // c3
-body
-    // c4
-,
-    // c5
-f64
-    // c6
-i8i8
-    // c7
-`two words`
-    // c8
-,
-    // c9
-body
-    // c10
-body
-    // c11
-`" ++ [28040; 24687; 31867; 22411]%N ++ runes_of_ascii "`
-    // c12
-,
-    // c13
-}
-    // c14
-root
-    // c15
-packet
-    // c16
-chars
-    // c17
-{
-    // c18
-@lengthOf(
-    // c19
-i64_
-    // c20
-)
-    // c21
-chars
-    // c22
-,
-    // c23
-i8i8
-    // c24
-{
-    // c25
-falsey
-    // c26
-@lengthOf(
-    // c27
-stringy
-    // c28
-)
-    // c29
-`doc`
-    // c30
-,
-    // c31
-}
-    // c32
-,
-    // c33
-x
-    // c34
-@lengthOf(
-    // c35
-A
-    // c36
-)
-    // c37
-`crlf
-line`
-    // c38
-,
-    // c39
-}
-    // c40
-")).
-Eval vm_compute in ("<<<M1922>>>" ++ check (runes_of_ascii "// top
-root packet msg_type {
-    // c3
-    i64 options1,
-    // c6
-    @lengthOf(f32a)
-    // c9
-    repeat uint16 Foo,
-    // c13
-    @calculatedFrom(""x y"")
-    // c16
-    repeat int64 pack,
-    // c20
-    @leftPad(' ')
-    // c24
-    uint8 Foo,
-    // c27
-}
-
-// c28
-packet rootA {
-    // c31
-    f32a x `two words`,
-    // c35
-    char asx @lengthOf(falsey) `u8 x,`,
-    // c42
-    @lengthOf(i64_)
-    // c45
-    uint16 chars,
-    // c48
-    @tag(0)
-    // c51
-    string _x @calculatedFrom(""abc"") `// not a comment`,
-    // c58
-}
-// c59")).
-Eval vm_compute in ("<<<M1514>>>" ++ check (runes_of_ascii "root packet i64_ {
-    packetx {
-        string zchar @calculatedFrom(""`tick`"") `
-                `,
-        zchar[1] metadata `doc`,
-        Foo @calculatedFrom(""CRC32""),
-    },
-    char[] roots `crlf
-        line`,
-    @calculatedFrom(""it's"")
-    char rootA,
-    @tag(7)
-    charz o `it's`,// a // b
-    char[007] msg_type @lengthOf(x_y_z),
-    repeat zchar[007] repeatCount `say ""hi""`,
-    match i64_ as rootA {
-        [""abc""] : T,
-    },
-    repeat chars,
-}")).
-Eval vm_compute in ("<<<M1201>>>" ++ check (runes_of_ascii "// top
-packet
-    // c0
-u128
-    // c1
-{
-    // c2
-@lengthOf(
-    // c3
-body
-    // c4
-)
-    // c5
-match
-    // c6
-x_y_z
-    // c7
-as
-    // c8
-u
-    // c9
-{
-    // c10
-""x y""
-    // c11
-:
-    // c12
-i8i8
-    // c13
-,
-    // c14
-}
-    // c15
-,
-    // c16
-@tag(
-    // c17
-255
-    // c18
-)
-    // c19
-char[]
-    // c20
-roots
-    // c21
-@lengthOf(
-    // c22
-int
-    // c23
-)
-    // c24
-,
-    // c25
-}
-    // c26
-")).
-Eval vm_compute in ("<<<M1351>>>" ++ check (runes_of_ascii "packet B // c1
-{ // c2
-u8 // c3a
-  // c3b
-a // c4
-,
-    // c5
-} // c6a
-  // c6b
-root
-    // c7
-packet
-    // c8
-P // c9
-{ // c10a
-  // c10b
-u8 // c11
-K // c12a
-  // c12b
-, // c13a
-  // c13b
-u64 // c14
-L @lengthOf( Body // c17a
-  // c17b
-) // c18
-,
-    // c19
-match // c20a
-  // c20b
-K as // c22
-Body // c23
-{
-    // c24
-1 // c25
-: // c26
-B // c27
-, } , } // c31
-")).
-Eval vm_compute in ("<<<M52>>>" ++ check (runes_of_ascii "// `tick` ""quote"" 'q'
-root packet u128{Z9_ { match trueish // c
-as rootA { [	""abc"" , ""{,}""
-,// c
-0 ]
-: MetaDataX [
-""a\""b""
-]
-: tag ,
-""CRC32"" :
-//	t
-/// triple
-options1 ,
-    [
-    """ ++ [28040; 24687]%N ++ runes_of_ascii """,
-""a\\"" ] :
-lengthOf
-    , ""a\""b""
-: chars ,
-    } , }
-,
-    @rightPad( '0'	) @calculatedFrom( ""CRC32"" ) char[00 ] packetx,
-} // a // b")).
-Eval vm_compute in ("<<<M1968>>>" ++ check (runes_of_ascii "
-options{
-matchKey
-
-= 42	/// triple
-    x= '0'
-    // packet A { u8 x, }
-      //
-
-charz
-= 
-
-// packet A { u8 x, }
-      // trailing space 
-true;	} 
-MetaData BodyLength
-    { uint8
-pack 
-,zchar[ 1  ] 
-float	,
-
-    float32  x_y_z
-
-    ``  ,
-    u32 _x
-
-    ,
-
-    i16
-body	,}
-
-")).
-Eval vm_compute in ("<<<M243>>>" ++ check (runes_of_ascii "packet leftPad{
-    trueish { char[] charz	@calculatedFrom(  ""\n"" )
-// @lengthOf(
-//x
-,
-    } , @rightPad
-    ( '0' ) @tag( 255 )len {
-    zchar[
-65535
-] f32a , }
-,f64
-    i8i8	`` , } options {chars = 00 Pad =
-    false // a // b
-stringy =
-string
-    }
-")).
-Eval vm_compute in ("<<<M1583>>>" ++ check (runes_of_ascii "
-packet 
-orderItem
-
-// c1
-{  // c2
-
-u8 	 // c3a
-// c3b
-  	a 
-
-// c4
-	,
-    // c5
-  	}  root packet // c8
-  	newOrder	// c9a
-// c9b
-    {  
-      // c10
-orderItem	// c11a
-  // c11b
-
-,  // c12
-  u8 
-    // c13
-    	x // c14
-  , }
-
-")).
-Eval vm_compute in ("<<<M442>>>" ++ check (runes_of_ascii "options
-{
-matchKey = 42/// triple
-x='0' ;
-// packet A { u8 x, }
-//
-charz
-=
-// packet A { u8 x, }
-// trailing space 
-true true  ; } MetaData BodyLength
-{
-uint8
-pack,zchar[ 1]float ,  float32 x_y_z `` ,u32
-_x,i16 body  , }
-")).
-Eval vm_compute in ("<<<M469>>>" ++ check (runes_of_ascii "options
-{
-matchKey = 42/// triple
-x='0' ;
-// packet A { u8 x, }
-//
-charz
-=
-// packet A { u8 x, }
-// trailing space 
-true  ; } MetaData BodyLength
-crc
-uint8
-pack,zchar[ 1]float ,  float32 x_y_z `` ,u32
-_x,i16 body  , }
-")).
-Eval vm_compute in ("<<<M583>>>" ++ check (runes_of_ascii "options
-{
-matchKey = 42/// triple
-x='0' ;
-// packet A { u8 x, }
-//
-charz
-=
-// packet A { u8 x, }
-// trailing space 
-true  ; } MetaData BodyLength
-{
-uint8'
-pack,zchar[ 1]float ,  float32 x_y_z `` ,u32
-_x,i16 body  , }
-")).
-Eval vm_compute in ("<<<M533>>>" ++ check (runes_of_ascii "options
-{
-matchKey = 42/// triple
-x='0' ;
-// packet A { u8 x, }
-//
-charz
-=
-// packet A { u8 x, }
-// trailing space 
-true  ; } MetaData BodyLength
-{
-uint8
-pack,zchar[ 1]float ,  float32 x_y_z `` ,_x
-u32,i16 body  , }
-")).
-Eval vm_compute in ("<<<M546>>>" ++ check (runes_of_ascii "options
-{
-matchKey = 42/// triple
-x='0' ;
-// packet A { u8 x, }
-//
-charz
-=
-// packet A { u8 x, }
-// trailing space 
-true  ; } MetaData BodyLength
-{
-uint8
-pack,zchar[ 1]float ,  float32 x_y_z `` ,u32
-_x, body  , }
-")).
-Eval vm_compute in ("<<<M461>>>" ++ check (runes_of_ascii "options
-{
-matchKey = 42/// triple
-x='0' ;
-// packet A { u8 x, }
-//
-charz
-=
-// packet A { u8 x, }
-// trailing space 
-true  ; } MetaData 
-{
-uint8
-pack,zchar[ 1]float ,  float32 x_y_z `` ,u32
-_x,i16 body  , }
-")).
-Eval vm_compute in ("<<<M49>>>" ++ check (runes_of_ascii "// a // b
-root
-    packet string_ { i32 options1 `say ""hi""`
-, } packet stringy
-// " ++ [128512]%N ++ runes_of_ascii " emoji
-/// triple
-{
-    } MetaData
-len  {i8i8
-charz
-    `u8 x,`,
-// `tick` ""quote"" 'q'
-// trailing space 
-}")).
-Eval vm_compute in ("<<<M672>>>" ++ check (runes_of_ascii "// c
-packet i64_ {	char[] calculatedFrom , } } packet
-trueish  {@calculatedFrom(
-""a\\"" ) o { i32 falsey@lengthOf( uint8x ),
-} , } // `tick` ""quote"" 'q'
-options {// c
-Z9_ = ' '//
-}
-")).
-Eval vm_compute in ("<<<M721>>>" ++ check (runes_of_ascii "// c
-packet i64_ {	char[] calculatedFrom , } packet
-trueish  {@calculatedFrom(
-""a\\""  o { i32 falsey@lengthOf( uint8x ),
-} , } // `tick` ""quote"" 'q'
-options {// c
-Z9_ = ' '//
-}
-")).
-Eval vm_compute in ("<<<M77>>>" ++ check (runes_of_ascii "MetaData o
-    { char[] i64_
-`{ , }`	, u16 tag  ,
-char[]
-lengthOf	`u8 x,` , Z9_  rootA`
-`,
-zchar[	3 // trailing space 
-] u, // " ++ [27880; 37322]%N ++ runes_of_ascii "
-float T
-//	t
-//	t
-`{ , }`
-    , }
-")).
-Eval vm_compute in ("<<<M1890>>>" ++ check (runes_of_ascii "options {
-    // trailing space 
-    A = ' ';
-    calculatedFrom = ""a\""b"";
-    msg_type = char[4294967296];
     //
-    rootA = '\x00'
-    msg_type = false
-}")).
-Eval vm_compute in ("<<<M1306>>>" ++ check (runes_of_ascii "MetaData _x
-    // c1
-{
-    // c2
-zchar[ 4294967296 // c4a
-  // c4b
-] lengthOf // c6
-`// not a comment` // c7a
-  // c7b
-,
-    // c8
-}
-    // c9
-")).
-Eval vm_compute in ("<<<M1532>>>" ++ check (runes_of_ascii "
+    	// 50% %s
+    :
+	chars
+, 
+007
 
-  packet Logon 	 // c
-	{
+:
+	Logon[
 
-@tag(
+3
+	]	:
+body
 
-42) @rightPad 
-(
+    //	t
+//
+	,
+[
+10
+]	: T
+// " ++ [27880; 37322]%N ++ runes_of_ascii "
+
+  , ""a	b""
+:
+	Z9_ , 
+      // trailing space 
+
+} , @lengthOf(	zchar 
+)
+i32
+
+    trueish
+
+    @lengthOf( a1 ) 
+`it's`  ,
+
+    @rightPad
+
+    (
 
     ' '
 
-)
-@leftPad ( )
-    repeat
+    )	// a // b
+  repeat
+len
+	{
+match
+pack
+as	// packet A { u8 x, }
+	  falsey
+	{
+""// no comment"" ://
+    packetx  ""1""	:
 
-    trueish{  string	T ,
-	}
-    ,
-    }")).
-Eval vm_compute in ("<<<M53>>>" ++ check (runes_of_ascii "  options{ u= ""a	b"" ; charz = true ;
-    matchKey =//x
-0123456789 u8x =
-char[]
-    // trailing space 
-    Packet
-=
-false ; }
+//
+    	// c
+o
+
+    ,  [
+00,
+	""{,}""]	//	t
+    :
+T
+
+// " ++ [128512]%N ++ runes_of_ascii " emoji
+// `tick` ""quote"" 'q'
+  007
+:
+
+    // `tick` ""quote"" 'q'
+    _x
+    }  ,
+
+}  ,
+    match  options1 as rootA { ""a	b"" : MetaDataX
+,	007 : 
+calculatedFrom,
+    // c
+    //x
+	""" ++ [233]%N ++ runes_of_ascii "t" ++ [233]%N ++ runes_of_ascii """
+	: //
+  lengthOf
+    1
+:
+A
+    ,	""a\\"": packetx
+,
+
+[""it's""	] :  body ,
+    } ,
+
+} packet	Header {
+}
 ")).
-Eval vm_compute in ("<<<M1347>>>" ++ check (runes_of_ascii "packet B {
+Eval vm_compute in ("<<<M4334>>>" ++ check (runes_of_ascii "packet
+rootA{
+@tag(  10 
+)
+match	packetx // packet A { u8 x, }
+as
+
+    leftPad
+{ 
+7 :
+	x //
+,""abc"":	leftPad, ""x y""	:	Z9_// 50% %s
+""""
+	// @lengthOf(
+  :Foo
+    , } ,
+
+    repeat
+u64 u 
+, repeat Packet{  f32
+
+    uint8x ,repeat
+
+    Packet
+
+`{ , }`	,repeat	int16
+
+chars
+
+    `doc` // " ++ [128512]%N ++ runes_of_ascii " emoji
+	,
+	}
+,
+}
+
+    root	packet	//
+	x
+	{
+
+    @lengthOf(
+calculatedFrom  
+      // packet A { u8 x, }
+  ) char[]
+
+    falsey 
+@lengthOf(asx )
+    ,	match
+	x_y_z as
+
+    charz
+{""\n""	:
+
+    trueish
+,
+""// no comment"": 
+u128 
+,0123456789:Pad  ,
+	} ,
+	    // trailing space 
+  // c
+    	repeatCount
+    @lengthOf(
+	i8i8
+    /// triple
+		//x
+	),	calculatedFrom
+
+    @calculatedFrom( 
+  // c
+    """ ++ [233]%N ++ runes_of_ascii "t" ++ [233]%N ++ runes_of_ascii """)
+
+,}options
+    {
+	body =
+true
+
+    ;
+    f32a
+=0123456789
+
+len=
+	""{,}"";
+}
+options  {}
+MetaData
+//x
+    Logon
+
+    {
+    } ")).
+Eval vm_compute in ("<<<M4479>>>" ++ check (runes_of_ascii "root packet Logon {
+    @tag(7)
+    zchar[1] matchKey `say ""hi""`,
+    rootA `" ++ [233]%N ++ runes_of_ascii "`,
+    match string_ as trueish {
+        // trailing space 
+        [4294967296] : BodyLength,
+        // 50% %s
+        7 : BodyLength,
+        [""// no comment"", 65535, 42, ""it's"", ""\" ++ [233]%N ++ runes_of_ascii """] : len,
+        [1, ""// no comment""] : matchKey,
+        ""packet"" : Pad,
+    },
+    @tag(10)
+    // 50% %s
+    /// triple
+    @rightPad('0')
+    char[1] x_y_z @calculatedFrom(""" ++ [28040; 24687]%N ++ runes_of_ascii """) `" ++ [28040; 24687; 31867; 22411]%N ++ runes_of_ascii "`,
+    repeat string i64_ `u8 x,`,
+    char[] leftPad,
+    @calculatedFrom(""" ++ [28040; 24687]%N ++ runes_of_ascii """)
+    match Packet as chars {
+        ""\" ++ [233]%N ++ runes_of_ascii """ : metadata,
+    },
+}
+
+packet packetx {
+    uint32 len @calculatedFrom(""" ++ [28040; 24687]%N ++ runes_of_ascii """) `tab	here`,
+    @rightPad(' ')
+    uint8 u128 `crlf
+    line`,
+    @rightPad('0')
+    @lengthOf(zchar)
+    @tag(3)
+    string Logon,
+    repeat int16 charz,
+}")).
+Eval vm_compute in ("<<<M2>>>" ++ check (runes_of_ascii "packet	string_
+    { @calculatedFrom(
+    """ ++ [128512]%N ++ runes_of_ascii """)zchar[
+    3 ] packetx
+,
+}packet
+//x
+// trailing space 
+MetaDataX{ x T, @leftPad  ( '\x00' )
+/// triple
+// packet A { u8 x, }
+zchar[ // `tick` ""quote"" 'q'
+10 ] leftPad
+@lengthOf(
+    chars
+) `" ++ [233]%N ++ runes_of_ascii "` ,	}packet len {  @calculatedFrom( ""1"" )@tag(// `tick` ""quote"" 'q'
+4294967296 ) leftPad , repeat i8i8 {string_ @lengthOf( rootA
+    ) , }
+, @lengthOf(
+    leftPad )char
+zchar ,
+    @lengthOf(MetaDataX ) // 50% %s
+@tag( 10) @rightPad	('0')options1 // " ++ [128512]%N ++ runes_of_ascii " emoji
+matchKey `tab	here` ,@tag( 1 )//
+repeat
+    // packet A { u8 x, }
+    float , }
+    MetaData stringy { } packet packetx
+{ @tag( // c
+42
+) @leftPad ( '0' )
+int8 f32a ,@leftPad (	) @calculatedFrom(""a\""b"" ) @rightPad ('\x00' ) u16
+    packetx@calculatedFrom(""it's"" )
+, }
+")).
+Eval vm_compute in ("<<<M1256>>>" ++ check (runes_of_ascii "packet uint8x // " ++ [128512]%N ++ runes_of_ascii " emoji
+{ }packet metadata {	} root packet float { @tag( 255 ) uint8 u128	@calculatedFrom(
+    ""{,}""
+) `line1
+line2`
+    ,A @lengthOf(
+repeatCount
+),A @calculatedFrom(
+""" ++ [28040; 24687]%N ++ runes_of_ascii """) ,repeat Header { repeat zchar[ // `tick` ""quote"" 'q'
+0 ] //
+a1 `
+`
+,
+    u8 calculatedFrom,i8i8 { // trailing space 
+crc roots , x_y_z ,  } , repeat	u32// c
+A ,} , char[] float `a\`, @lengthOf(
+string_ )
+match Foo
+as  asx { [	0123456789, 65535,  ""\" ++ [233]%N ++ runes_of_ascii """ ] /// triple
+:string_, 1 :
+int// a // b
+, ""it's"" :packetx, 255 :Logon, 1
+: i64_
+    ,1 /// triple
+: calculatedFrom ,
+} ,zchar[ 4294967296//x
+] metadata`// not a comment` ,
+// " ++ [128512]%N ++ runes_of_ascii " emoji
+// a // b
+}	options  {stringy =//	t
+true
+; matchKey= 00; rootA = '0' msg_type ='\x00'
+; // a // b
+}")).
+Eval vm_compute in ("<<<M4025>>>" ++ check (runes_of_ascii "packet packetx {
+    @calculatedFrom(""a\\"")
+    T @calculatedFrom(""a\\"") `" ++ [28040; 24687; 31867; 22411]%N ++ runes_of_ascii "`,
+}
+
+packet charz {
+    @rightPad()
+    @lengthOf(msg_type)
+    @tag(10)
+    u64 Header @lengthOf(charz),
+}
+
+packet u {
+    repeat lengthOf {
+        matchKey @lengthOf(o) `tab	here`,
+    },
+    repeat u32 As `" ++ [28040; 24687; 31867; 22411]%N ++ runes_of_ascii "`,
+    @tag(4294967296)
+    @rightPad(' ')
+    zchar[255] packetx @lengthOf(i64_) `100% of %d`,
+    a1 x `
+    `,
+    u32 string_ @lengthOf(u),
+    @tag(3)
+    packetx @lengthOf(Packet) `u8 x,`,
+    f32a @lengthOf(falsey),
+    trueish {
+        char[00] u128 ``,
+        repeat charz,
+        char[7] len `it's`,
+        MetaDataX options1,
+    },
+    i64 Z9_,
+    int32 Pad @lengthOf(Foo) `u8 x,`,
+}")).
+Eval vm_compute in ("<<<M4207>>>" ++ check (runes_of_ascii "options {
+    u8x = '0';
+    stringy = ""x y""
+    lengthOf = true;//x
+    _x = 007
+    // trailing space 
+    //
+    A = '0';
+}
+
+root packet stringy {
+    repeat uint16 len `tab	here`,
+    @tag(7)
+    @calculatedFrom(""" ++ [28040; 24687]%N ++ runes_of_ascii """)
+    i16 msg_type `
+        `,// a // b
+    repeat repeatCount {
+        repeat pack msg_type `tab	here`,
+        match repeatCount as _x {
+            ""`tick`"" : trueish,
+            [""\n"", 65535, 255, ""abc"", 0123456789] : options1,
+        },
+    },
+    @rightPad(' ')
+    f64 Z9_,
+    int32 BodyLength `two words`,
+    @calculatedFrom(""a\\"")
+    char[255] lengthOf,
+    f64 Foo,
+    char[1] Z9_,
+    repeat roots uint8x,
+}
+
+packet Header {
+}")).
+Eval vm_compute in ("<<<M4460>>>" ++ check (runes_of_ascii "MetaData lengthOf {
+    o falsey `u8 x,`,
+    char[] u8x,
+}
+
+packet leftPad {
+}
+
+options {
+    string_ = char[0123456789]
+}
+
+packet u {
+    roots {
+        char[0] leftPad,
+        repeat i64 matchKey,
+        repeat leftPad stringy ``,
+        stringy @calculatedFrom(""x y"") `100% of %d`,
+    },
+    uint16 calculatedFrom,
+    @calculatedFrom(""1"")
+    repeat string i8i8,
+    repeat matchKey `line1
+    line2`,
+    Pad @calculatedFrom("""") `u8 x,`,
+    @tag(65535)
+    repeat char[] asx `" ++ [28040; 24687; 31867; 22411]%N ++ runes_of_ascii "`,
+    @tag(00)
+    uint8x @calculatedFrom(""{,}""),
+    chars _x,
+    body `" ++ [28040; 24687; 31867; 22411]%N ++ runes_of_ascii "`,
+    int64 Logon @calculatedFrom(""" ++ [233]%N ++ runes_of_ascii "t" ++ [233]%N ++ runes_of_ascii """),
+}
+
+packet Z9_ {
+}
+// " ++ [27880; 37322]%N)).
+Eval vm_compute in ("<<<M912>>>" ++ check (runes_of_ascii "packet
+    roots{ @tag( 65535) repeat
+    // " ++ [27880; 37322]%N ++ runes_of_ascii "
+    char[
+    // @lengthOf(
+    0123456789
+]
+Pad `tab	here`	, @tag( 255 ) // 50% %s
+repeat crc , repeatCount { u @calculatedFrom(""\n""  ) /// triple
+,
+    Z9_
+    @lengthOf(  asx )  , chars// " ++ [27880; 37322]%N ++ runes_of_ascii "
+@calculatedFrom(
+""a	b""
+    ) , string uint8x @lengthOf( metadata
+    )  ,
+}
+, @tag(
+    42 ) uint16
+    pack , } MetaData
+    asx {
+    } packet
+    calculatedFrom { char[// trailing space 
+10
+] T// " ++ [128512]%N ++ runes_of_ascii " emoji
+, @calculatedFrom(""it's"" ) @tag( 7  )
+    A //x
+@calculatedFrom(
+    //x
+    ""{,}"" ) `" ++ [233]%N ++ runes_of_ascii "`, u32
+f32a @calculatedFrom( ""it's""// " ++ [27880; 37322]%N ++ runes_of_ascii "
+) ,}
+// packet A { u8 x, }
+")).
+Eval vm_compute in ("<<<M3432>>>" ++ check (runes_of_ascii "// top
+packet
+    // c0
+Z9_
+    // c1
+{
+    // c2
+repeat
+    // c3
+int8
+    // c4
+T
+    // c5
+,
+    // c6
+}
+    // c7
+options
+    // c8
+{
+    // c9
+f32a
+    // c10
+=
+    // c11
+i16
+    // c12
+Packet
+    // c13
+=
+    // c14
+' '
+    // c15
+MetaDataX
+    // c16
+=
+    // c17
+""it's""
+    // c18
+;
+    // c19
+a1
+    // c20
+=
+    // c21
+""" ++ [233]%N ++ runes_of_ascii "t" ++ [233]%N ++ runes_of_ascii """
+    // c22
+;
+    // c23
+MetaDataX
+    // c24
+=
+    // c25
+""// no comment""
+    // c26
+}
+    // c27
+MetaData
+    // c28
+matchKey
+    // c29
+{
+    // c30
+zchar[
+    // c31
+1
+    // c32
+]
+    // c33
+MetaDataX
+    // c34
+,
+    // c35
+}
+    // c36
+")).
+Eval vm_compute in ("<<<M31>>>" ++ check (runes_of_ascii "// packet A { u8 x, }
+root
+    // `tick` ""quote"" 'q'
+    packet // 50% %s
+lengthOf{ repeat
+    int8
+options1 ,string uint8x@lengthOf( len) `a\` , @lengthOf( //x
+i8i8
+) repeat int
+    // " ++ [27880; 37322]%N ++ runes_of_ascii "
+    len, @calculatedFrom( """ ++ [233]%N ++ runes_of_ascii "t" ++ [233]%N ++ runes_of_ascii """
+) string	u8x@calculatedFrom( ""\n"" )
+`it's`
+// c
+// @lengthOf(
+, @leftPad
+    ('0' )@calculatedFrom(
+""CRC32"" )@leftPad /// triple
+( )
+i16 string_`" ++ [233]%N ++ runes_of_ascii "` ,
+    @lengthOf( // `tick` ""quote"" 'q'
+i64_  )uint8
+Foo , @tag(
+65535
+    )
+    // @lengthOf(
+    rootA
+`it's` ,}options{ leftPad =
+""it's"" }  MetaData
+x_y_z {string body,// c
+}
+
+")).
+Eval vm_compute in ("<<<M478>>>" ++ check (runes_of_ascii "root
+// " ++ [27880; 37322]%N ++ runes_of_ascii "
+/// triple
+packet
+x{ float32 a1, match // `tick` ""quote"" 'q'
+Logon
+    as A
+    { /// triple
+""" ++ [128512]%N ++ runes_of_ascii """
+    : f32a,	0: options1 ,
+//
+// packet A { u8 x, }
+[ 0
+    , 4294967296 ,65535 ,
+    0
+, 255,
+    // 50% %s
+    """ ++ [28040; 24687]%N ++ runes_of_ascii """
+// trailing space 
+// packet A { u8 x, }
+,3 ,
+007 ] :
+Logon 0123456789 : BodyLength
+    ,
+// c
+// c
+} ,
+int32 i64_@lengthOf(pack ) , match As
+as
+f32a{ 255 :stringy , 65535 :
+i8i8 ,
+// packet A { u8 x, }
+/// triple
+},	} MetaData int
+    {
+u64 f32a
+, char[ 00
+] options1 //x
+, packetx lengthOf
+, } // a // b")).
+Eval vm_compute in ("<<<M3959>>>" ++ check (runes_of_ascii "options{LittleEndian
+
+= 
+true
+
+;
+ArrayPrefixLenType =  u32
+	;  FixedStringPadFromLeft= 
+true ;
+
+    FixedStringPadChar
+	='0'
+; } packet
+
+Party
+{
+}root
+packet Heartbeat
+{repeat string  Tail , InRef14
+{
+    InMsgkind17
+	{int8
+Flags 
+,char[
+    10 ]Acct
+,  zchar[
+4 ] sym ,i8
+Px 
+,	} , string
+Px, }
+
+    ,  uint16	seqNo
+
+    ,
+    int64	tag7
+,
+	u16
+
+    Note
+
+    ,
+
+    u32
+Px@lengthOf(
+
+    Body) ,	match
+
+Note as
+    Body {
+
+    96
+:
+Party
+,}
+,
+
+    u16 Acct @calculatedFrom(  ""CRC32""	)
+
+, }
+")).
+Eval vm_compute in ("<<<M558>>>" ++ check (runes_of_ascii "// c
+MetaData x
+{
+falsey Logon `a\`,  char[]
+a1 , crc A , }packet// trailing space 
+Pad {
+zchar[	4294967296	] x_y_z ``
+, repeat
+    matchKey{ zchar[ 007 ] len
+, BodyLength { leftPad
+a1 , crc i8i8	, uint64 len@lengthOf( o ) `line1
+line2` ,}
+,
+    trueish , lengthOf calculatedFrom , } , @leftPad
+    () u8x @calculatedFrom(
+""" ++ [128512]%N ++ runes_of_ascii """  ) `line1
+line2` , } packet asx {
+float32
+    Packet , @lengthOf(
+    metadata ) repeat MetaDataX
+    { f64
+    // trailing space 
+    Z9_ , }
+    //x
+    ,  }")).
+Eval vm_compute in ("<<<M461>>>" ++ check (runes_of_ascii "packet u {Packet
+,	int
+    // trailing space 
+    f32a`it's` , @lengthOf( lengthOf ) u64 Z9_
+,repeat i64
+    // @lengthOf(
+    Packet ,@lengthOf( rootA
+) @lengthOf( lengthOf
+    )
+// packet A { u8 x, }
+// " ++ [27880; 37322]%N ++ runes_of_ascii "
+char[]
+    u8x @calculatedFrom(""abc""
+) ,int {
+    match
+msg_type// a // b
+as T {
+    10 : Foo }	,
+}
+,
+    @lengthOf(
+    u128) @lengthOf(
+o )
+    charz msg_type
+`u8 x,`,@rightPad( )repeat char[65535 ] Pad,
+    @rightPad (
+'0' ) o@lengthOf( u8x ) ,
+} //x")).
+Eval vm_compute in ("<<<M3551>>>" ++ check (runes_of_ascii "options {
+    StringPrefixLenType = u8;
+    ArrayPrefixLenType = u16;
+    FixedStringPadChar = '0';
+}
+packet Fill {
+    char[6] Acct,
+    u64 venue,
+}
+root packet Logout {
+    char[] Tail,
+    repeat i8 f1,
+    float64 msgKind,
+    zchar[3] Note,
+    uint64 count,
+    @leftPad(' ') char[12] Px,
+    u32 OrderId,
+    u16 tag7 @lengthOf(Body),
+    match OrderId as Body {
+        [35, 107] : Fill,
+    },
+    u32 Ref @calculatedFrom(""CR\
+C32""),
+}
+")).
+Eval vm_compute in ("<<<M3431>>>" ++ check (runes_of_ascii "// top
+packet // c0
+Z9_ // c1
+{ // c2
+repeat // c3
+int8 // c4
+T // c5
+, // c6
+} // c7
+options // c8
+{ // c9
+f32a // c10
+= // c11
+i16 // c12
+Packet // c13
+= // c14
+' ' // c15
+MetaDataX // c16
+= // c17
+""it's"" // c18
+; // c19
+a1 // c20
+= // c21
+""" ++ [233]%N ++ runes_of_ascii "t" ++ [233]%N ++ runes_of_ascii """ // c22
+; // c23
+MetaDataX // c24
+= // c25
+""// no comment"" // c26
+} // c27
+MetaData // c28
+matchKey // c29
+{ // c30
+zchar[ // c31
+1 // c32
+] // c33
+MetaDataX // c34
+, // c35
+} // c36
+")).
+Eval vm_compute in ("<<<M1379>>>" ++ check (runes_of_ascii "
+packet i64_
+{ match _x as f32a{ [ 1 , 007 ,
+    // @lengthOf(
+    ""packet"", ""\" ++ [233]%N ++ runes_of_ascii """
+] :
+    int ,
+""1"" : Header [
+    1]
+    : u8x , 0123456789: falsey
+[ 0123456789, 7
+    , 3 , 1, 255
+    // " ++ [128512]%N ++ runes_of_ascii " emoji
+    , 3,
+// " ++ [27880; 37322]%N ++ runes_of_ascii "
+// " ++ [27880; 37322]%N ++ runes_of_ascii "
+1 ] :	pack , } , }root packet Logon { match	i8i8 // @lengthOf(
+as MetaDataX {
+""// no comment"" :
+x
+[ 255]
+    :
+Logon
+,""packet"":rootA ,	007
+:
+    packetx , 10// `tick` ""quote"" 'q'
+:len	,  }
+    , }
+")).
+Eval vm_compute in ("<<<M332>>>" ++ check (runes_of_ascii "options { a1 = false // c
+}
+packet lengthOf {
+@leftPad() @tag(
+1) char[ 0123456789 // trailing space 
+] pack @lengthOf( BodyLength ) , uint8x { zchar[ 0 // " ++ [128512]%N ++ runes_of_ascii " emoji
+] zchar // @lengthOf(
+`u8 x,`,msg_type@lengthOf(
+uint8x )
+    `
+` ,
+repeat BodyLength `it's` , As rootA , } , repeat zchar
+{
+    repeat zchar[ 65535 ]
+msg_type `a\` ,i8i8
+@calculatedFrom(""it's""
+    )
+, }, i32 leftPad
+`doc` // a // b
+, }")).
+Eval vm_compute in ("<<<M3629>>>" ++ check (runes_of_ascii "
+//
+
+	root  packet  Z9_
+
+    { @tag(
+    10
+)
+
+u32 A
+
+    @lengthOf(  body	)
+, 
+@leftPad 
+()zchar[
+	3
+] matchKey ,
+repeat
+
+    lengthOf	{
+
+    u8
+    asx // a // b
+
+`two words`
+    ,
+    } ,
+
+    @tag(
+
+    0123456789 ) repeat
+
+    //
+  char[ 42
+    ]
+
+rootA
+`say ""hi""`,
+stringy
+	`line1
+line2`
+    ,
+	@leftPad // @lengthOf(
+    ( ' '  )  repeat
+    i32
+trueish
+,
+
+} ")).
+Eval vm_compute in ("<<<M3838>>>" ++ check (runes_of_ascii "
+
+  packet
+calculatedFrom
+
+{// " ++ [128512]%N ++ runes_of_ascii " emoji
+
+	@calculatedFrom( 
+""a	b"" 
+)
+    repeat  int32
+Header
+// `tick` ""quote"" 'q'
+	`a\`
+
+,	}
+packet
+leftPad {@leftPad
+( 
+)  @tag(
+65535  ) @rightPad
+(	)
+
+    repeat
+    msg_type
+,
+string	charz
+@calculatedFrom( ""// no comment""	) `100% of %d`,
+Z9_ lengthOf  , @lengthOf(
+
+i64_
+
+    //
+  ) char[
+0 
+] i8i8	@calculatedFrom(
+""" ++ [128512]%N ++ runes_of_ascii """ ) , }
+")).
+Eval vm_compute in ("<<<M3456>>>" ++ check (runes_of_ascii "// top
+packet // c0a
+  // c0b
+B
+    // c1
+{
+    // c2
+u8 // c3a
+  // c3b
+a ,
+    // c5
+} // c6a
+  // c6b
+root packet P // c9
+{ // c10
+u8 K
+    // c12
+,
+    // c13
+u64
+    // c14
+L
+    // c15
+@lengthOf( // c16
+Body
+    // c17
+)
+    // c18
+, match // c20
+K as
+    // c22
+Body { 1
+    // c25
+: // c26a
+  // c26b
+B // c27
+,
+    // c28
+} ,
+    // c30
+} // c31
+")).
+Eval vm_compute in ("<<<M4151>>>" ++ check (runes_of_ascii "MetaData zchar {
+    charz tag `say ""hi""`,
+    char[10] string_,// 50% %s
+    u16 u8x `100% of %d`,
+    zchar[1] calculatedFrom `line1
+        line2`,
+    float32 string_ `" ++ [233]%N ++ runes_of_ascii "`,
+}
+
+packet Pad {
+    char[007] As,
+    As @calculatedFrom(""\" ++ [233]%N ++ runes_of_ascii """) `
+        `,
+    crc `100% of %d`,
+    // c
+    @tag(4294967296)
+    @calculatedFrom(""" ++ [128512]%N ++ runes_of_ascii """)
+    f32 u8x,
+}")).
+Eval vm_compute in ("<<<M3879>>>" ++ check (runes_of_ascii "root packet metadata {
+    char[007] _x `a\`,
+    match _x as Packet {
+        [
+            4294967296, ""a\""b"", ""{,}"", 0, """",
+            65535
+        ] : options1,
+        [""abc""] : options1,
+        [""it's"", """ ++ [233]%N ++ runes_of_ascii "t" ++ [233]%N ++ runes_of_ascii """, """ ++ [233]%N ++ runes_of_ascii "t" ++ [233]%N ++ runes_of_ascii """, ""a\\""] : len,
+    },
+    uint8 Z9_,
+    As @calculatedFrom("""") `" ++ [28040; 24687; 31867; 22411]%N ++ runes_of_ascii "`,// @lengthOf(
+    i64 As `" ++ [233]%N ++ runes_of_ascii "`,
+}")).
+Eval vm_compute in ("<<<M513>>>" ++ check (runes_of_ascii "
+packet // c
+repeatCount { match
+    chars
+as
+u128{ // c
+3  :
+// @lengthOf(
+// trailing space 
+T , """ ++ [233]%N ++ runes_of_ascii "t" ++ [233]%N ++ runes_of_ascii """ :
+    A ,// 50% %s
+""a	b""
+:  zchar
+,
+007
+: Packet ,42:
+// trailing space 
+// `tick` ""quote"" 'q'
+uint8x  }, @lengthOf( trueish) rootA `{ , }` , calculatedFrom @lengthOf(
+T) , } MetaData	int { int16
+len , }")).
+Eval vm_compute in ("<<<M1371>>>" ++ check (runes_of_ascii "MetaData Header	{ u16 trueish `// not a comment` ,
+zchar[ 255]
+u128,_x x
+    ,
+// `tick` ""quote"" 'q'
+// @lengthOf(
+pack pack `" ++ [28040; 24687; 31867; 22411]%N ++ runes_of_ascii "`, char[]
+    /// triple
+    msg_type
+, }
+MetaData
+repeatCount {
+char[
+    7
+] /// triple
+uint8x`u8 x,` , }options
+{ zchar =
+    // packet A { u8 x, }
+    0123456789 }
+")).
+Eval vm_compute in ("<<<M322>>>" ++ check (runes_of_ascii "options { asx =' ' Header
+    =uint16
+    repeatCount =
+""x y"" msg_type = 7
+;	}
+options {x_y_z=
+    ""packet""packetx = ""`tick`"" ; rootA =""" ++ [128512]%N ++ runes_of_ascii """ ; } options
+{ u128 =
+char[ 42 ]
+} options
+{
+u128 =i32 ; charz =
+    // @lengthOf(
+    true // " ++ [128512]%N ++ runes_of_ascii " emoji
+; string_ =
+    ' ' ;
+    /// triple
+    }
+
+")).
+Eval vm_compute in ("<<<M1957>>>" ++ check (runes_of_ascii "packet	packetx { // trailing space 
+x_y_z
+{
+string
+charz ,
+string x// @lengthOf(
+`two words`
+    ,  u8x { // `tick` ""quote"" 'q'
+charz `100% of %d` // packet A { u8 x, }
+,}// " ++ [27880; 37322]%N ++ runes_of_ascii "
+,} , }
+    // a // b
+    packet packet metadata {  @leftPad ( '0') repeat i32 options1 ,u64 uint8x , }
+")).
+Eval vm_compute in ("<<<M2038>>>" ++ check (runes_of_ascii "packet	packetx { // trailing space 
+x_y_z
+{
+string
+charz ,
+string x// @lengthOf(
+`two words`
+    ,  u8x { // `tick` ""quote"" 'q'
+charz `100% of %d` // packet A { u8 x, }
+,}// " ++ [27880; 37322]%N ++ runes_of_ascii "
+,} , }
+    // a // b
+    packet metadata {  '1'@leftPad ( '0') repeat i32 options1 ,u64 uint8x , }
+")).
+Eval vm_compute in ("<<<M2035>>>" ++ check (runes_of_ascii "packet	pa`cketx { // trailing space 
+x_y_z
+{
+string
+charz ,
+string x// @lengthOf(
+`two words`
+    ,  u8x { // `tick` ""quote"" 'q'
+charz `100% of %d` // packet A { u8 x, }
+,}// " ++ [27880; 37322]%N ++ runes_of_ascii "
+,} , }
+    // a // b
+    packet metadata {  @leftPad ( '0') repeat i32 options1 ,u64 uint8x , }
+")).
+Eval vm_compute in ("<<<M1968>>>" ++ check (runes_of_ascii "packet	packetx { // trailing space 
+x_y_z
+{
+string
+charz ,
+string x// @lengthOf(
+`two words`
+    ,  u8x { // `tick` ""quote"" 'q'
+charz `100% of %d` // packet A { u8 x, }
+,}// " ++ [27880; 37322]%N ++ runes_of_ascii "
+,} , }
+    // a // b
+    packet metadata @leftPad  { ( '0') repeat i32 options1 ,u64 uint8x , }
+")).
+Eval vm_compute in ("<<<M1986>>>" ++ check (runes_of_ascii "packet	packetx { // trailing space 
+x_y_z
+{
+string
+charz ,
+string x// @lengthOf(
+`two words`
+    ,  u8x { // `tick` ""quote"" 'q'
+charz `100% of %d` // packet A { u8 x, }
+,}// " ++ [27880; 37322]%N ++ runes_of_ascii "
+,} , }
+    // a // b
+    packet metadata {  @leftPad ( '0' repeat i32 options1 ,u64 uint8x , }
+")).
+Eval vm_compute in ("<<<M633>>>" ++ check (runes_of_ascii "options {A
+    // 50% %s
+    = '\x00'; } options {u = char repeatCount=
+255
+repeatCount = ""\" ++ [233]%N ++ runes_of_ascii """/// triple
+;
+    x
+= ""CRC32"" }
+    MetaData	MetaDataX { zchar[ 3 ]
+    charz ,	Header
+u8x ,// packet A { u8 x, }
+string As , u128 body , options1
+// a // b
+// a // b
+falsey ,  }
+")).
+Eval vm_compute in ("<<<M2195>>>" ++ check (runes_of_ascii "packet// packet A { u8 x, }
+repeatCount	{// packet A { u8 x, }
+@leftPad ( '\x00'
+) repeat u8x MetaDataX `crlf
+line`,
+    repeat
+    char[] MetaDataX
+    ,
+u64	uint8x@calculatedFrom(""a\""b""
+// c
+// packet A { u8 x, }
+) `tab	here`
+,//
+}MetaData pack
+    {
+    @lengthOf }
+")).
+Eval vm_compute in ("<<<M309>>>" ++ check (runes_of_ascii "packet
+    msg_type {} packet	trueish	{ repeat T
+    { float64
+body ,
+options1 repeatCount `" ++ [28040; 24687; 31867; 22411]%N ++ runes_of_ascii "`
+    ,
+    } ,
+match
+chars as
+    leftPad
+    { [ 007 ]: string_ ,
+    [ 7 ,  0 , 65535 ,""a\\""
+, ""{,}""
+]
+    // c
+    :  charz
+    // " ++ [27880; 37322]%N ++ runes_of_ascii "
+    , }
+// " ++ [128512]%N ++ runes_of_ascii " emoji
+// " ++ [27880; 37322]%N ++ runes_of_ascii "
+, }")).
+Eval vm_compute in ("<<<M2060>>>" ++ check (runes_of_ascii "packet// packet A { u8 x, }
+repeatCount	{ {// packet A { u8 x, }
+@leftPad ( '\x00'
+) repeat u8x MetaDataX `crlf
+line`,
+    repeat
+    char[] MetaDataX
+    ,
+u64	uint8x@calculatedFrom(""a\""b""
+// c
+// packet A { u8 x, }
+) `tab	here`
+,//
+}MetaData pack
+    {
+    }
+")).
+Eval vm_compute in ("<<<M1313>>>" ++ check (runes_of_ascii "packet lengthOf { }
+// " ++ [128512]%N ++ runes_of_ascii " emoji
+/// triple
+packet
+    Packet
+{@rightPad
+    ('0' )@leftPad ('\x00' /// triple
+)
+match Logon  as
+roots
+{
+""{,}"":u128 , } , leftPad  `" ++ [28040; 24687; 31867; 22411]%N ++ runes_of_ascii "` , } options {
+Header
+    = true } options{roots = int32 ; }	packet calculatedFrom {
+    }")).
+Eval vm_compute in ("<<<M2166>>>" ++ check (runes_of_ascii "packet// packet A { u8 x, }
+repeatCount	{// packet A { u8 x, }
+@leftPad ( '\x00'
+) repeat u8x MetaDataX `crlf
+line`,
+    repeat
+    char[] MetaDataX
+    ,
+u64	uint8x@calculatedFrom(""a\""b""
+// c
+// packet A { u8 x, }
+) `tab	here`
+,//
+MetaData} pack
+    {
+    }
+")).
+Eval vm_compute in ("<<<M509>>>" ++ check (runes_of_ascii "//x
+packet // c
+zchar
+    {
+// " ++ [128512]%N ++ runes_of_ascii " emoji
+// `tick` ""quote"" 'q'
+string
+    _x ,
+    @lengthOf(
+string_ )	a1
+,char[]
+// packet A { u8 x, }
+// packet A { u8 x, }
+leftPad ``,}
+    packet
+    charz{@leftPad ( ) falsey
+//	t
+// packet A { u8 x, }
+`two words`,
+}
+")).
+Eval vm_compute in ("<<<M1591>>>" ++ check (runes_of_ascii "packet calculatedFrom
+{ @calculatedFrom( ""a\\"" ) zchar[ 4294967296 ]
+calculatedFrom@lengthOf( pack )	`100% of %d` ,char[]body@calculatedFrom( ""// no comment"" )  ,
+@tag( 007) //x
+int8
+leftPad`it's` , repeat pack
+    { repeat char[ 3] @lengthOf(
+,},
+}")).
+Eval vm_compute in ("<<<M1496>>>" ++ check (runes_of_ascii "packet calculatedFrom
+{ @calculatedFrom( ""a\\"" ) zchar[ 4294967296 ]
+calculatedFrom@lengthOf( pack )	`100% of %d` ,char[]options@calculatedFrom( ""// no comment"" )  ,
+@tag( 007) //x
+int8
+leftPad`it's` , repeat pack
+    { repeat char[ 3] body
+,},
+}")).
+Eval vm_compute in ("<<<M371>>>" ++ check (runes_of_ascii "root
+    packet
+f32a { repeat int64 As , @tag(//	t
+007	)
+zchar {
+char[ 007// a // b
+]
+    Header
+, char[]
+    i8i8 ,
+} , @tag( 0)  char[]
+    tag,  }
+packet pack {
+    }options { body= zchar[
+4294967296 ];
+roots = ""1""; x_y_z = char f32a
+= 007; }
+")).
+Eval vm_compute in ("<<<M1440>>>" ++ check (runes_of_ascii "packet calculatedFrom
+{ @calculatedFrom( ""a\\"" zchar[ ) 4294967296 ]
+calculatedFrom@lengthOf( pack )	`100% of %d` ,char[]body@calculatedFrom( ""// no comment"" )  ,
+@tag( 007) //x
+int8
+leftPad`it's` , repeat pack
+    { repeat char[ 3] body
+,},
+}")).
+Eval vm_compute in ("<<<M1606>>>" ++ check (runes_of_ascii "packet calculatedFrom
+{ @calculatedFrom( ""a\\"" ) zchar[ 4294967296 ]
+calculatedFrom@lengthOf( pack )	`100% of %d` ,char[]body@calculatedFrom( ""// no comment"" )  ,
+@tag( 007) //x
+int8
+leftPad`it's` , repeat pack
+    { repeat char[ 3] body
+,}]
+}")).
+Eval vm_compute in ("<<<M1536>>>" ++ check (runes_of_ascii "packet calculatedFrom
+{ @calculatedFrom( ""a\\"" ) zchar[ 4294967296 ]
+calculatedFrom@lengthOf( pack )	`100% of %d` ,char[]body@calculatedFrom( ""// no comment"" )  ,
+@tag( 007) //x
+)
+leftPad`it's` , repeat pack
+    { repeat char[ 3] body
+,},
+}")).
+Eval vm_compute in ("<<<M1541>>>" ++ check (runes_of_ascii "packet calculatedFrom
+{ @calculatedFrom( ""a\\"" ) zchar[ 4294967296 ]
+calculatedFrom@lengthOf( pack )	`100% of %d` ,char[]body@calculatedFrom( ""// no comment"" )  ,
+@tag( 007) //x
+int8
+,`it's` , repeat pack
+    { repeat char[ 3] body
+,},
+}")).
+Eval vm_compute in ("<<<M1587>>>" ++ check (runes_of_ascii "packet calculatedFrom
+{ @calculatedFrom( ""a\\"" ) zchar[ 4294967296 ]
+calculatedFrom@lengthOf( pack )	`100% of %d` ,char[]body@calculatedFrom( ""// no comment"" )  ,
+@tag( 007) //x
+int8
+leftPad`it's` , repeat pack
+    { repeat char[ 3")).
+Eval vm_compute in ("<<<M361>>>" ++ check (runes_of_ascii "MetaData
+roots
+{u8// c
+float , charz Header , zchar[  007
+    ] leftPad `" ++ [28040; 24687; 31867; 22411]%N ++ runes_of_ascii "` , zchar[ 42 ]
+options1 `doc` , tag u,
+As options1
+, } packet matchKey{ } root packet _x {
+char[] metadata
+// c
+// trailing space 
+`a\`
+, }
+")).
+Eval vm_compute in ("<<<M1567>>>" ++ check (runes_of_ascii "packet calculatedFrom
+{ @calculatedFrom( ""a\\"" ) zchar[ 4294967296 ]
+calculatedFrom@lengthOf( pack )	`100% of %d` ,char[]body@calculatedFrom( ""// no comment"" )  ,
+@tag( 007) //x
+int8
+leftPad`it's` , repeat pack")).
+Eval vm_compute in ("<<<M3815>>>" ++ check (runes_of_ascii "// top
+MetaData metadata {
+    // c2
+}// c3
+
+MetaData rootA {
+    // c6
+    i8 i64_,// c9
+    roots options1 `a\`,// c13
+    lengthOf Header,// c16
+    Z9_ Foo,// c19
+    int16 BodyLength,// c22
+}// c23")).
+Eval vm_compute in ("<<<M965>>>" ++ check (runes_of_ascii "MetaData crc // " ++ [27880; 37322]%N ++ runes_of_ascii "
+{ u128
+    //	t
+    metadata
+    `" ++ [28040; 24687; 31867; 22411]%N ++ runes_of_ascii "`, calculatedFrom body ,	repeatCount Header`a\`,float32 int  `u8 x,` ,string /// triple
+Foo
+, } //x
+packet x {rootA calculatedFrom , }")).
+Eval vm_compute in ("<<<M4045>>>" ++ check (runes_of_ascii "//x
+packet zchar {
+    // " ++ [128512]%N ++ runes_of_ascii " emoji
+    // `tick` ""quote"" 'q'
+    string _x,
+    @lengthOf(string_)
+    a1,
+    char[] leftPad ``,
+}
+
+packet charz {
+    @leftPad()
+    falsey `two words`,
+}")).
+Eval vm_compute in ("<<<M271>>>" ++ check (runes_of_ascii "// trailing space 
+root // packet A { u8 x, }
+packet // trailing space 
+zchar {// @lengthOf(
+@calculatedFrom(
+""packet"" )repeat char[
+    7 ] _x , u32
+crc ,
+    }	packet	asx {}
+")).
+Eval vm_compute in ("<<<M3487>>>" ++ check (runes_of_ascii "packet A {
     u8 a,
 }
+packet B {
+    u16 b,
+}
 root packet P {
-    u8 K,
-    u8 L @lengthOf(Body),
-    match K as Body {
+    u8 K1,
+    u8 K2,
+    match K1 as M1 {
+        1 : A,
+    },
+    match K2 as M2 {
         1 : B,
     },
 }
 ")).
-Eval vm_compute in ("<<<M647>>>" ++ check (runes_of_ascii "MetaData
-    // trailing space 
-    matchKey
-{ u64 chars // a // b
-,char[] length<Of `// not a comment`
-    , //	t
-}")).
-Eval vm_compute in ("<<<M1973>>>" ++ check (runes_of_ascii "
-
-  packet
-
-    A  {
-
-    match
-k as  n
-    {	[
-
-""a""	, ""bb"",
-    ""c c"" 
-]
-
-    :
-    B ,
-	2
-	: C  }
-
-    , } ")).
-Eval vm_compute in ("<<<M1703>>>" ++ check (runes_of_ascii "// c
-packet Logon {
-    @tag(42)
-    @rightPad(' ')
-    @leftPad()
-    repeat trueish {
-        string T,
-    },
-}")).
-Eval vm_compute in ("<<<M1377>>>" ++ check (runes_of_ascii "root packet
-    // c1
-P {
-    // c3
-repeat string ss , // c7
-repeat // c8
-u16 // c9
-ns
-    // c10
-, } // c12
+Eval vm_compute in ("<<<M2370>>>" ++ check (runes_of_ascii "
+packet MetaDataX
+{
+    @leftPad @leftPad
+( // a // b
+'0'
+) i8 u @lengthOf(
+MetaDataX
+    ) `say ""hi""` ,	} MetaData BodyLength {
+    asx
+x_y_z `" ++ [233]%N ++ runes_of_ascii "`
+, uint64 u128 , }
 ")).
-Eval vm_compute in ("<<<M896>>>" ++ check (runes_of_ascii "packet A {
+Eval vm_compute in ("<<<M1803>>>" ++ check (runes_of_ascii "options { } packet Packet{char[] i64_ ,
+@tag(
+    255) match
+crc as i8i8{""{,}"" : trueish """" : Pad , ""a\\"" :
+Foo ,
+    1 :packetx
+, """ ++ [128512]%N ++ runes_of_ascii """ : trueish trueish , } , }")).
+Eval vm_compute in ("<<<M1090>>>" ++ check (runes_of_ascii "root
+// @lengthOf(
+// a // b
+packet
+    lengthOf { @tag(	3 // 50% %s
+)@leftPad (
+'\x00' // a // b
+) asx{ zchar[ 0 ]
+uint8x , zchar[ 255] float ,
+} // " ++ [27880; 37322]%N ++ runes_of_ascii "
+, }")).
+Eval vm_compute in ("<<<M1683>>>" ++ check (runes_of_ascii "options { } packet Packet{char[] i64_ ,
+@tag(
+    255 255) match
+crc as i8i8{""{,}"" : trueish """" : Pad , ""a\\"" :
+Foo ,
+    1 :packetx
+, """ ++ [128512]%N ++ runes_of_ascii """ : trueish , } , }")).
+Eval vm_compute in ("<<<M2380>>>" ++ check (runes_of_ascii "
+packet MetaDataX
+{
+    @leftPad
+( // a // b
+'0'
+) i8 u @lengthOf(
+MetaDataX
+    ) `say ""hi""` ,	} MetaData BodyLength {
+    asx
+x_y_z `" ++ [233]%N ++ runes_of_ascii "`
+, uint64 u128 } ,
+")).
+Eval vm_compute in ("<<<M1813>>>" ++ check (runes_of_ascii "options { } packet Packet{char[] i64_ ,
+@tag(
+    255) match
+crc as i8i8{""{,}"" : trueish """" : Pad , ""a\\"" :
+Foo ,
+    1 :packetx
+, """ ++ [128512]%N ++ runes_of_ascii """ : trueish , } } , }")).
+Eval vm_compute in ("<<<M1832>>>" ++ check (runes_of_ascii "options { } packet Packet{char[] ?i64_ ,
+@tag(
+    255) match
+crc as i8i8{""{,}"" : trueish """" : Pad , ""a\\"" :
+Foo ,
+    1 :packetx
+, """ ++ [128512]%N ++ runes_of_ascii """ : trueish , } , }")).
+Eval vm_compute in ("<<<M1734>>>" ++ check (runes_of_ascii "options { } packet Packet{char[] i64_ ,
+@tag(
+    255) match
+crc as i8i8{""{,}"" : trueish : """" Pad , ""a\\"" :
+Foo ,
+    1 :packetx
+, """ ++ [128512]%N ++ runes_of_ascii """ : trueish , } , }")).
+Eval vm_compute in ("<<<M1638>>>" ++ check (runes_of_ascii "options  } packet Packet{char[] i64_ ,
+@tag(
+    255) match
+crc as i8i8{""{,}"" : trueish """" : Pad , ""a\\"" :
+Foo ,
+    1 :packetx
+, """ ++ [128512]%N ++ runes_of_ascii """ : trueish , } , }")).
+Eval vm_compute in ("<<<M1685>>>" ++ check (runes_of_ascii "options { } packet Packet{char[] i64_ ,
+@tag(
+    ;) match
+crc as i8i8{""{,}"" : trueish """" : Pad , ""a\\"" :
+Foo ,
+    1 :packetx
+, """ ++ [128512]%N ++ runes_of_ascii """ : trueish , } , }")).
+Eval vm_compute in ("<<<M1637>>>" ++ check (runes_of_ascii "i32 { } packet Packet{char[] i64_ ,
+@tag(
+    255) match
+crc as i8i8{""{,}"" : trueish """" : Pad , ""a\\"" :
+Foo ,
+    1 :packetx
+, """ ++ [128512]%N ++ runes_of_ascii """ : trueish , } , }")).
+Eval vm_compute in ("<<<M3621>>>" ++ check (runes_of_ascii "options {
+    o = zchar[255];
+    BodyLength = f32
+    // packet A { u8 x, }
+    // " ++ [27880; 37322]%N ++ runes_of_ascii "
+    metadata = ""// no comment"";
+    A = """ ++ [233]%N ++ runes_of_ascii "t" ++ [233]%N ++ runes_of_ascii """;
+}// @lengthOf(")).
+Eval vm_compute in ("<<<M1061>>>" ++ check (runes_of_ascii "MetaData f32a { }
+    options { }
+root
+    packet
+    chars {
+@rightPad (
+    '\x00' ) chars @lengthOf(falsey)
+    ,char[
+42 ] lengthOf
+, } 	 ")).
+Eval vm_compute in ("<<<M1806>>>" ++ check (runes_of_ascii "options { } packet Packet{char[] i64_ ,
+@tag(
+    255) match
+crc as i8i8{""{,}"" : trueish """" : Pad , ""a\\"" :
+Foo ,
+    1 :packetx
+, """ ++ [128512]%N ++ runes_of_ascii """ :")).
+Eval vm_compute in ("<<<M3074>>>" ++ check (runes_of_ascii "packet A {
+    u16 len @lengthOf(body) `100% of %s %d %v`,
+    u32 crc @calculatedFrom(""CRC32"") `100% of %s %d %v`,
+    string body,
+}")).
+Eval vm_compute in ("<<<M1390>>>" ++ check (runes_of_ascii "MetaData crc { // @lengthOf(
+} root
+packet
+    f32a { @lengthOf( crc ) repeat i64_ { zchar[ 255] float // 50% %s
+``
+    , } ,  }")).
+Eval vm_compute in ("<<<M3308>>>" ++ check (runes_of_ascii "MetaData metadata { } MetaData rootA { i8 i64_ , roots options1 `a\` , lengthOf Header , Z9_ Foo , int16 BodyLength , } // c
+")).
+Eval vm_compute in ("<<<M3287>>>" ++ check (runes_of_ascii "MetaData metadata { } MetaData rootA { i8 i64_ , roots options1 `a\`
+// c
+, lengthOf Header , Z9_ Foo , int16 BodyLength , }")).
+Eval vm_compute in ("<<<M1497>>>" ++ check (runes_of_ascii "packet calculatedFrom
+{ @calculatedFrom( ""a\\"" ) zchar[ 4294967296 ]
+calculatedFrom@lengthOf( pack )	`100% of %d` ,char[]")).
+Eval vm_compute in ("<<<M3014>>>" ++ check (runes_of_ascii "packet A {
   match k as n {
-    [""a"", 22, ""c c"", 4, ""e"", 66, ""g"", 8, ""i"", 10, ""k""] : B,
+    [""a"", ""bb"", ""c c"", ""d"", ""e"", ""f"", ""g"", ""h"", ""i"", ""j"", ""k"", ""l""] : B
     2 : C
   },
 }")).
-Eval vm_compute in ("<<<M1271>>>" ++ check (runes_of_ascii "packet calculatedFrom { @tag( 4294967296 ) u msg_type , char[ // c
-3 ] crc @lengthOf( len ) `u8 x,` , }")).
-Eval vm_compute in ("<<<M919>>>" ++ check (runes_of_ascii "packet A {
+Eval vm_compute in ("<<<M1827>>>" ++ check (runes_of_ascii "options { } packet Packet{char[] i64_ ,
+@tag(
+    255) match
+crc as i8i8{""{,}"" : trueish """" : Pad , ""a\\"" :
+Fo")).
+Eval vm_compute in ("<<<M3326>>>" ++ check (runes_of_ascii "MetaData float { uint8 BodyLength // c
+, } MetaData charz { float32 trueish `a\` , i16 metadata `say ""hi""` , }")).
+Eval vm_compute in ("<<<M4194>>>" ++ check (runes_of_ascii "packet
+
+    charz
+    // 50% %s
+	  // a // b
+
+{ 
+	// 50% %s
+  @calculatedFrom(	"""" )
+
+    pack 
+,
+    }
+")).
+Eval vm_compute in ("<<<M1915>>>" ++ check (runes_of_ascii "packet	packetx { // trailing space 
+x_y_z
+{
+string
+charz ,
+string x// @lengthOf(
+`two words`
+    ,  u8x")).
+Eval vm_compute in ("<<<M4509>>>" ++ check (runes_of_ascii "options { A  =true ;
+
+}
+
+packet len
+{zchar[7	]
+	Foo//	t
+		@lengthOf(
+BodyLength), 
+zchar[10 ] int	,}")).
+Eval vm_compute in ("<<<M4187>>>" ++ check (runes_of_ascii "options {
+    A = true;
+}
+
+packet len {
+    zchar[7] Foo @lengthOf(BodyLength),
+    zchar[10] int,
+}")).
+Eval vm_compute in ("<<<M3081>>>" ++ check (runes_of_ascii "packet A {
     Inner {
-        u8 x `a
-b`,
+        u8 x `%`,
         Deep {
-            u8 y `a
-b`,
+            u8 y `%`,
         },
     },
 }")).
-Eval vm_compute in ("<<<M875>>>" ++ check (runes_of_ascii "packet A {
-  match k as n {
-    [""a"", ""bb"", 007, ""d"", ""e"", 66, ""g"", ""h"", 9] : B
-    2 : C
-  },
+Eval vm_compute in ("<<<M4159>>>" ++ check (runes_of_ascii "packet A {
+    match k as n {
+        [""a"", ""bb"", ""c c"", ""d"", ""e""] : B,
+        2 : C,
+    },
 }")).
-Eval vm_compute in ("<<<M1149>>>" ++ check (runes_of_ascii "packet Logon { @tag( 42 ) @rightPad ( ' ' )
-// c
-@leftPad ( ) repeat trueish { string T , } , }")).
-Eval vm_compute in ("<<<M1566>>>" ++ check (runes_of_ascii "
-packet A { B
-
-b
-`a
-    b
-  c` 
-,
-    B `a
-    b
-  c` 
-,
-
-repeat B
-    bs
-	`a
-    b
-  c`
-, }
+Eval vm_compute in ("<<<M2286>>>" ++ check (runes_of_ascii "MetaData _x {string na" ++ [239]%N ++ runes_of_ascii "ve `// not a comment` , string
+i64_ // trailing space 
+`a\` ,
+    }
 ")).
-Eval vm_compute in ("<<<M858>>>" ++ check (runes_of_ascii "packet A {
-  match k as n {
-    [""a"", 22, ""c c"", 4, ""e"", 66, ""g"", 8] : B
-    2 : C
-  },
+Eval vm_compute in ("<<<M2284>>>" ++ check (runes_of_ascii "MetaData _x {string x `// not a comment` , string
+i64_ // trailing space 
+`a\` ,
+    }
+< ")).
+Eval vm_compute in ("<<<M4095>>>" ++ check (runes_of_ascii "MetaData x_y_z {
+    tag float `doc`,
+    i16 _x `crlf
+    line`,
+    zchar[007] f32a,
 }")).
-Eval vm_compute in ("<<<M1965>>>" ++ check (runes_of_ascii "
-// `tick` ""quote"" 'q'
-    options
-
-    {leftPad
-
-= 
-float32
-
-} root  packet o {
-} ")).
-Eval vm_compute in ("<<<M256>>>" ++ check (runes_of_ascii "packet matchKey {
-@tag( 7
-    ) @leftPad
-    //x
-    ( '\x00')
-    string_ ,	} 	 ")).
-Eval vm_compute in ("<<<M1232>>>" ++ check (runes_of_ascii "packet o { @tag( 42 ) repeat x { char[ 0123456789 ] i64_ // c
-, } , } options { }")).
-Eval vm_compute in ("<<<M278>>>" ++ check (runes_of_ascii "options  {Packet= zchar[ 3
-] u128 = zchar[
-42 ] a1=
-'\x00'	;
-crc=	0	; //	t
-}
+Eval vm_compute in ("<<<M3214>>>" ++ check (runes_of_ascii "packet A { match k as n // a
+ { // b
+ 1 // c
+ : // d
+ B // e
+ , // f
+ } // g
+ , // h
+ }")).
+Eval vm_compute in ("<<<M285>>>" ++ check (runes_of_ascii "packet stringy{
+@calculatedFrom(
+""1"" ) zchar[ 0 ] body@calculatedFrom( ""a\""b""
+) ,}")).
+Eval vm_compute in ("<<<M2088>>>" ++ check (runes_of_ascii "packet// packet A { u8 x, }
+repeatCount	{// packet A { u8 x, }
+@leftPad ( '\x00'
+)")).
+Eval vm_compute in ("<<<M779>>>" ++ check (runes_of_ascii "  options {Logon = true ; As=3
+;repeatCount
+= """ ++ [233]%N ++ runes_of_ascii "t" ++ [233]%N ++ runes_of_ascii """ T = i8 ;
+f32a=
+f32 ;
+    }
 ")).
-Eval vm_compute in ("<<<M802>>>" ++ check (runes_of_ascii "packet A {
+Eval vm_compute in ("<<<M307>>>" ++ check (runes_of_ascii "root packet len// c
+{
+char[] repeatCount `{ , }`, repeat	char[42  ]
+    u , }
+")).
+Eval vm_compute in ("<<<M2910>>>" ++ check (runes_of_ascii "packet A {
   match k as n {
     [""a"", ""bb"", ""c c"", ""d""] : B
     2 : C
   },
 }")).
-Eval vm_compute in ("<<<M959>>>" ++ check (runes_of_ascii "packet A {
-    B b `tab
-	x`,
-    B `tab
-	x`,
-    repeat B bs `tab
-	x`,
-}")).
-Eval vm_compute in ("<<<M1314>>>" ++ check (runes_of_ascii "MetaData _x {
+Eval vm_compute in ("<<<M3391>>>" ++ check (runes_of_ascii "MetaData _x { f64 charz `tab	here` , } options { BodyLength = """ ++ [233]%N ++ runes_of_ascii "t" ++ [233]%N ++ runes_of_ascii """ ;
 // c
-zchar[ 4294967296 ] lengthOf `// not a comment` , }")).
-Eval vm_compute in ("<<<M1369>>>" ++ check (runes_of_ascii "root packet P {
-    u16 a,
-    u32 Sum @calculatedFrom(""CRC32""),
-}
+}")).
+Eval vm_compute in ("<<<M2997>>>" ++ check (runes_of_ascii "packet A { Inner { match k as n { [1,22,007,4,5,66,7,8,9,10] : B, }, }, }")).
+Eval vm_compute in ("<<<M2916>>>" ++ check (runes_of_ascii "packet A {
+  match k as n {
+    [1, 22, ""c c"", 4] : B
+    2 : C
+  },
+}")).
+Eval vm_compute in ("<<<M3405>>>" ++ check (runes_of_ascii "packet o
+// c
+{ @tag( 4294967296 ) options1 @lengthOf( u8x ) `" ++ [233]%N ++ runes_of_ascii "` , }")).
+Eval vm_compute in ("<<<M2807>>>" ++ check (runes_of_ascii "f32 char[ uint32 root as @lengthOf( '\x00' 65535 as float64 i16 i64")).
+Eval vm_compute in ("<<<M1155>>>" ++ check (runes_of_ascii "packet calculatedFrom { string
+o	``
+,
+    body x_y_z,// a // b
+}")).
+Eval vm_compute in ("<<<M457>>>" ++ check (runes_of_ascii "packet leftPad{} packet charz
+    { @rightPad ( '0'
+)	tag
+T ,}")).
+Eval vm_compute in ("<<<M3061>>>" ++ check (runes_of_ascii "packet A {
+    B b `
+x`,
+    B `
+x`,
+    repeat B bs `
+x`,
+}")).
+Eval vm_compute in ("<<<M2747>>>" ++ check (runes_of_ascii "; packet , char char[ ] ) @calculatedFrom( ] string u64 :")).
+Eval vm_compute in ("<<<M701>>>" ++ check (runes_of_ascii "MetaData x_y_z {char[] string_ ,  u128 stringy
+, }
+//
 ")).
-Eval vm_compute in ("<<<M1635>>>" ++ check (runes_of_ascii "MetaData charz {
-    zchar[42] packetx `crlf
-        line`,
+Eval vm_compute in ("<<<M1880>>>" ++ check (runes_of_ascii "packet	packetx { // trailing space 
+x_y_z
+{
+string")).
+Eval vm_compute in ("<<<M2338>>>" ++ check (runes_of_ascii "
+MetaData Pad{
+u32 rootA `line1
+line2` ~ ,
+    }
+")).
+Eval vm_compute in ("<<<M4037>>>" ++ check (runes_of_ascii "root packet A {
+    u8 x `a
+        b
+      c`,
 }")).
-Eval vm_compute in ("<<<M1967>>>" ++ check (runes_of_ascii "options {
-    a = ""x\
-        y"";
-    b = ""x\
-        y""
-}")).
-Eval vm_compute in ("<<<M1084>>>" ++ check (runes_of_ascii "packet A { B { // a
- u8 x, // b
- } // c
- , // d
- }")).
-Eval vm_compute in ("<<<M766>>>" ++ check (runes_of_ascii "= @calculatedFrom( true '\x00' i64 uint32")).
-Eval vm_compute in ("<<<M1954>>>" ++ check (runes_of_ascii "options {
-    a = 1// c
-    b = 2;// d
-}")).
-Eval vm_compute in ("<<<M1989>>>" ++ check (runes_of_ascii "options {
-    // " ++ [27880; 37322]%N ++ runes_of_ascii "
-    T = int64
-}")).
-Eval vm_compute in ("<<<M958>>>" ++ check (runes_of_ascii "packet A {
-    u8 x `tab
-	x`,
-}")).
-Eval vm_compute in ("<<<M1482>>>" ++ check (runes_of_ascii "
+Eval vm_compute in ("<<<M4230>>>" ++ check (runes_of_ascii "
 
-  // c" ++ [5760]%N ++ runes_of_ascii "
-  	packet
-	A  {  }
+  MetaData
+
+    Pad
+{	u32
+
+rootA
+,
+    }
+
 ")).
-Eval vm_compute in ("<<<M1936>>>" ++ check (runes_of_ascii "options {
-    i64_ = 00
-}")).
-Eval vm_compute in ("<<<M1623>>>" ++ check (runes_of_ascii "packet repeatCount {
-}")).
-Eval vm_compute in ("<<<M980>>>" ++ check (runes_of_ascii "packet A {
+Eval vm_compute in ("<<<M1163>>>" ++ check (runes_of_ascii "MetaData
+    int // packet A { u8 x, }
+{
 }
+")).
+Eval vm_compute in ("<<<M673>>>" ++ check (runes_of_ascii "options { metadata
+    =
+    '\x00'  ; }
+
+")).
+Eval vm_compute in ("<<<M2289>>>" ++ check (runes_of_ascii "
+ Pad{
+u32 rootA `line1
+line2` ,
+    }
+")).
+Eval vm_compute in ("<<<M148>>>" ++ check (runes_of_ascii "options{ falsey
+= // " ++ [128512]%N ++ runes_of_ascii " emoji
+""it's"" }")).
+Eval vm_compute in ("<<<M3864>>>" ++ check (runes_of_ascii "packet A {
+    u8 x `a
+        b`,
+}")).
+Eval vm_compute in ("<<<M2313>>>" ++ check (runes_of_ascii "
+MetaData Pad{
+u32 rootA  ,
+    }
+")).
+Eval vm_compute in ("<<<M3964>>>" ++ check (runes_of_ascii "packet
+
+A {u8 x `d" ++ [8239]%N ++ runes_of_ascii "`, 	 // c" ++ [8239]%N ++ runes_of_ascii "
+	} ")).
+Eval vm_compute in ("<<<M2676>>>" ++ check (runes_of_ascii "options { a = 1; b = 2 c = 3;; }")).
+Eval vm_compute in ("<<<M3131>>>" ++ check (runes_of_ascii "packet A {
+ u8 x `d" ++ [8192]%N ++ runes_of_ascii "`, // c" ++ [8192]%N ++ runes_of_ascii "
+}")).
+Eval vm_compute in ("<<<M2670>>>" ++ check (runes_of_ascii "MetaData M { @tag(1) u8 x, }")).
+Eval vm_compute in ("<<<M634>>>" ++ check (runes_of_ascii "packet
+    rootA
+{
+    }
+")).
+Eval vm_compute in ("<<<M2758>>>" ++ check (runes_of_ascii "i64 o u8 ""a\\"" ' ' string")).
+Eval vm_compute in ("<<<M805>>>" ++ check (runes_of_ascii "packet
+    u{ // " ++ [27880; 37322]%N ++ runes_of_ascii "
+}
+")).
+Eval vm_compute in ("<<<M2716>>>" ++ check (runes_of_ascii "i32 float64 options ]")).
+Eval vm_compute in ("<<<M2233>>>" ++ check (runes_of_ascii "MetaData _x {string")).
+Eval vm_compute in ("<<<M3110>>>" ++ check (runes_of_ascii "// c" ++ [12288]%N ++ runes_of_ascii "
+packet A {
+}")).
+Eval vm_compute in ("<<<M3211>>>" ++ check (runes_of_ascii "packet A { // a
+ }")).
+Eval vm_compute in ("<<<M3147>>>" ++ check (runes_of_ascii "packet A {
+}// c" ++ [8239]%N)).
+Eval vm_compute in ("<<<M2513>>>" ++ check (runes_of_ascii "@calculatedFrom")).
+Eval vm_compute in ("<<<M2690>>>" ++ check (runes_of_ascii "options A { }")).
+Eval vm_compute in ("<<<M2816>>>" ++ check ([65533; 65533; 65533; 65533; 65533; 65533]%N ++ runes_of_ascii "U" ++ [65533; 65533]%N ++ runes_of_ascii "^T")).
+Eval vm_compute in ("<<<M2485>>>" ++ check (runes_of_ascii "metadata")).
+Eval vm_compute in ("<<<M4243>>>" ++ check (runes_of_ascii "
 // c" ++ [12288]%N)).
-Eval vm_compute in ("<<<M1073>>>" ++ check (runes_of_ascii "MetaData M {
-}// c")).
-Eval vm_compute in ("<<<M741>>>" ++ check (runes_of_ascii "xgTn-gkPTrfXT@?")).
-Eval vm_compute in ("<<<M38>>>" ++ check (runes_of_ascii "
- 	 ")).
-Eval vm_compute in ("<<<M733>>>" ++ check ([65279]%N)).
+Eval vm_compute in ("<<<M2460>>>" ++ check (runes_of_ascii "uint8")).
+Eval vm_compute in ("<<<M644>>>" ++ check (runes_of_ascii "  
+")).
+Eval vm_compute in ("<<<M390>>>" ++ check (runes_of_ascii "
+
+")).
+Eval vm_compute in ("<<<M2852>>>" ++ check (runes_of_ascii ";[" ++ [65533]%N)).
+Eval vm_compute in ("<<<M2516>>>" ++ check (runes_of_ascii "/")).
